@@ -433,15 +433,16 @@ Qed.
 Lemma serve_auth_cases d slug p q rest o an now_ns :
   let resp := serve_auth lower d slug p q rest o an now_ns in
   let rr rt := serve_route lower d slug p q o an now_ns rt (inner q rest) (B.init_state (d_pre d) (inner q rest)) in
-  (no_effect resp /\ (r_status resp = 301 \/ r_status resp = 404)) \/
+  (no_effect resp /\ ((r_status resp = 301 /\ r_body resp = BEmpty) \/
+                      (r_status resp = 404 /\ r_body resp = BPlain /\ r_loc resp = LNone))) \/
   (rest = p_start /\ resp = rr rt_start) \/ (rest = p_sign_in /\ resp = rr rt_sign_in) \/
   (rest = p_sign_out /\ resp = rr rt_sign_out) \/ (rest = p_callback /\ resp = rr rt_callback) \/
   (exists h, rest = rt_path (rt_back h) /\ resp = rr (rt_back h)).
 Proof.
   cbv zeta. unfold serve_auth. destruct (negb _).
-  { left. split; [|left; reflexivity]. unfold no_effect, mk. cbn. repeat split; auto. right. eexists. reflexivity. }
+  { left. split; [|left; split; reflexivity]. unfold no_effect, mk. cbn. repeat split; auto. right. eexists. reflexivity. }
   destruct (find_route rest all_routes) as [rt|] eqn:Ef.
-  2:{ left. split; [|right; reflexivity]. unfold no_effect, mk. cbn. repeat split; auto. }
+  2:{ left. split; [|right; split; [|split]; reflexivity]. unfold no_effect, mk. cbn. repeat split; auto. }
   right. destruct (find_route_cases rest rt Ef) as [[-> ->]|[[-> ->]|[[-> ->]|[[-> ->]|[h [-> ->]]]]]]; auto 10.
   right; right; right; right. exists h. split; reflexivity.
 Qed.
@@ -716,3 +717,1232 @@ Proof.
 Qed.
 
 End Redeem.
+
+(* ------------------------------------------------------------------------------------------ *)
+(* /callback end to end: C09's CSRF binding with the state decoded by a concrete base64 reader,
+   C07's concrete re-validation of the redirect, C10's provider Redeem *)
+
+(* what C10_session_email says the IdP vouched for (token endpoint 200 + JSON carrying the
+   session's tokens; the e-mail is the verified e-mail of the id_token payload / userinfo) *)
+Definition idp_vouched (p : F.pkind) (an : answers) (code : str) (ts : T.session) : Prop :=
+  code <> [] /\ T.s_email ts <> [] /\
+  exists tf, an_tok an = T.Resp 200 (T.Json tf) /\
+    T.as_string (T.f_access tf) = Some (T.s_access ts) /\ T.as_string (T.f_refresh tf) = Some (T.s_refresh ts) /\
+    match p with
+    | F.Google =>
+        exists idt seg bytes pf,
+          T.as_string (T.f_idtoken tf) = Some idt /\
+          nth_error (split_on T.dot idt) 1 = Some seg /\
+          T.b64url_decode (T.pad4 seg) = Some bytes /\
+          an_payload an bytes = T.Json pf /\
+          T.f_email pf = T.JStr (T.s_email ts) /\ T.f_verified pf = T.JBool true
+    | F.Okta =>
+        exists uf, an_ui an = T.Resp 200 (T.Json uf) /\ T.f_email uf = T.JStr (T.s_email ts) /\
+                   T.f_verified uf = T.JBool true
+    end.
+
+Lemma rd_of_tokens p an code email access rtok dur :
+  rd_of p an code = F.RdTokens email access rtok dur ->
+  exists ts, T.redeem true (tprov p) (an_payload an) code (an_tok an) (an_ui an) = T.Session ts /\
+    T.s_email ts = email /\ T.s_access ts = access /\ T.s_refresh ts = rtok /\ T.s_expires_in ts = dur /\
+    idp_vouched p an code ts.
+Proof.
+  unfold rd_of. destruct (T.redeem true (tprov p) (an_payload an) code (an_tok an) (an_ui an)) as [ts| |] eqn:E; try discriminate.
+  intros H. inversion H; subst. exists ts. do 5 (split; [reflexivity|]).
+  pose proof (TP.redeem_session_email true (tprov p) (an_payload an) code (an_tok an) (an_ui an) ts E) as [H1 [H2 [tf [H3 [H4 [H5 H6]]]]]].
+  unfold idp_vouched. split; [exact H1|]. split; [exact H2|]. exists tf. split; [exact H3|]. split; [exact H4|]. split; [exact H5|].
+  destruct p; exact H6.
+Qed.
+
+(* a panic of the provider's Redeem cannot happen with today's len(jwt) check (C10_no_panic) *)
+Lemma rd_of_total p an code :
+  T.redeem true (tprov p) (an_payload an) code (an_tok an) (an_ui an) <> T.Panic.
+Proof. exact (proj1 (TP.no_panic_fixed (tprov p) (an_payload an) false code (an_tok an) (an_ui an) None)). Qed.
+
+Section Callback.
+Variable lower : str -> str.
+Variables (d : deployment) (o : oracles) (now_ns : Z) (slug : str) (p : F.pkind) (q : request) (an : answers).
+Let now_s := (now_ns / ns)%Z.
+Let r := inner q p_callback.
+Let resp := serve_route lower d slug p q o an now_ns rt_callback r (B.init_state (d_pre d) r).
+Let rq := cb_request_of d slug q (the_form r).
+Let code := B.form_get B.k_code (the_form r).
+Let cr := F.oauth_callback lower (fcfg d) now_s rq (rd_of p an code).
+
+Lemma callback_cases :
+  (exists c, resp = gate_err r c /\ c = 405) \/
+  resp = err_with r 500 [] [] [] (Some HCallback) \/
+  (B.rq_method r = B.m_get /\ init_err d r = false /\ resp = of_flow_callback r (Some HCallback) cr).
+Proof.
+  unfold resp. rewrite callback_flat. unfold method_ok.
+  destruct (mem_str (B.rq_method r) [B.m_get]) eqn:Em; cbn [negb]; [|left; eexists; split; reflexivity].
+  right. unfold h_callback. rewrite (BP.parse_form_ok r _ (BP.init_state_ok (d_pre d) r)).
+  change (BP.pending_err r (B.init_state (d_pre d) r)) with (pending_err r (B.init_state (d_pre d) r)).
+  rewrite init_pending. destruct (init_err d r); [left; reflexivity|].
+  right. split; [apply method_get_only; exact Em|]. split; reflexivity.
+Qed.
+
+(* INT_login_end_to_end *)
+Theorem login_sound_int s : In (F.OpSet s) (r_sess_ops resp) ->
+  B.rq_method r = B.m_get /\
+  exists nonce redirect ts,
+    (* C09: the state decodes (concretely) to nonce ":" redirect and the browser holds that nonce *)
+    S.b64_decode (B.form_get k_state (the_form r)) = Some (nonce ++ F.colon :: redirect) /\
+    ~ In F.colon nonce /\ lookup slug (q_csrf q) = Some nonce /\
+    (* C07: the redirect is re-validated, concretely *)
+    G.valid_redirect_uri redirect (root_domains d) = true /\
+    (forall sch ui h port rest, Url.rfc_split redirect sch ui h port rest ->
+       G.in_domain (Url.rfc_hostname h) (d_proxy_domains d)) /\
+    (* C10: the provider vouched for the e-mail *)
+    B.form_get k_error (the_form r) = [] /\
+    T.redeem true (tprov p) (an_payload an) code (an_tok an) (an_ui an) = T.Session ts /\
+    idp_vouched p an code ts /\
+    (* C09: rule, lifetime fixed at login *)
+    F.rule_passes lower (fcfg d) (T.s_email ts) = true /\
+    s = F.redeemed_session (fcfg d) now_s (T.s_email ts) (T.s_access ts) (T.s_refresh ts) (T.s_expires_in ts) /\
+    r_loc resp = LVerbatim redirect /\ r_status resp = 302 /\
+    r_sess_ops resp = [F.OpSet s] /\ r_csrf_ops resp = [F.mkSC [] true] /\
+    r_calls resp = [CIdp (F.CallRedeem code)].
+Proof.
+  intros Hin. destruct callback_cases as [[c [He _]]|[He|[Hm [Hi He]]]]; rewrite He in Hin |- *;
+    try (cbn in Hin; contradiction).
+  unfold of_flow_callback in Hin |- *.
+  destruct (F.cr_saved cr) as [s'|] eqn:Es.
+  2:{ cbn in Hin. contradiction. }
+  pose proof (FP.callback_csrf lower (fcfg d) now_s rq (rd_of p an code) s' Es) as
+    [nonce [redirect [email [access [rtok [dur [_ [He' [Hc [Hst [Hnc [Hcs [Hro [Hrd [Hne [Hru [Hs' [Hlo [Hstt Hca]]]]]]]]]]]]]]]]]]].
+  fold cr in Hlo, Hstt, Hca. rewrite Hlo in Hin |- *. cbn in Hin. destruct Hin as [Hin|[]].
+  assert (Hss : s' = s) by (inversion Hin; reflexivity). clear Hin. destruct Hss.
+  destruct (rd_of_tokens p an code email access rtok dur Hrd) as [ts [Hred [E1 [E2 [E3 [E4 Hv]]]]]].
+  split; [exact Hm|]. exists nonce, redirect, ts.
+  split; [exact Hst|]. split; [exact Hnc|]. split; [exact Hcs|]. split; [exact Hro|].
+  split. { intros sch ui h port rest Hsp. exact (GP.host_in_domain _ _ _ _ _ _ _ Hro Hsp). }
+  split; [exact He'|]. split; [exact Hred|]. split; [exact Hv|].
+  split; [rewrite E1; exact Hru|]. split; [rewrite E1, E2, E3, E4; exact Hs'|].
+  cbn [r_loc r_status r_sess_ops r_csrf_ops r_calls mk].
+  split; [reflexivity|]. split; [reflexivity|]. split; [reflexivity|].
+  split. { unfold F.callback_set_cookies. pose proof (FP.callback_saved_cleared lower _ _ _ _ _ Es) as Hcl.
+           fold cr in Hcl. rewrite Hcl. reflexivity. }
+  rewrite Hca. reflexivity.
+Qed.
+
+(* no session saved: no redirect, an error response (C09_callback_no_session_no_redirect) *)
+Lemma callback_no_session_int : r_sess_ops resp = [] -> r_loc resp = LNone /\ (400 <= r_status resp).
+Proof.
+  destruct callback_cases as [[c [He Hc]]|[He|[Hm [Hi He]]]]; rewrite He.
+  - intros _. subst c. split; [reflexivity|]. cbn. lia.
+  - intros _. split; [reflexivity|]. cbn. lia.
+  - unfold of_flow_callback. destruct (F.cr_saved cr) as [s'|] eqn:Es.
+    + pose proof (FP.callback_csrf lower (fcfg d) now_s rq (rd_of p an code) s' Es) as X.
+      destruct X as [? [? [? [? [? [? [_ [_ [_ [_ [_ [_ [_ [_ [_ [_ [_ [X _]]]]]]]]]]]]]]]]]].
+      fold cr in X. rewrite X. cbn. discriminate.
+    + intros _. split; [destruct (F.cr_location cr); reflexivity|].
+      destruct (FP.callback_no_session lower (fcfg d) now_s rq (rd_of p an code) Es) as [_ X].
+      fold cr in X. destruct (F.cr_location cr); cbn; exact X.
+Qed.
+
+End Callback.
+
+(* ------------------------------------------------------------------------------------------ *)
+(* C18: every response from inside an authenticator carries the security table;
+   C20: every error body is inert HTML / well-formed JSON *)
+
+Lemma hops_ok (r : response) : forallb HP.aop_ok (hops r) = true.
+Proof.
+  unfold hops. rewrite !forallb_app.
+  assert (Hc : forall A (l : list A), forallb HP.aop_ok (map (fun _ => H.AAddCookie []) l) = true)
+    by (induction l; [reflexivity | exact IHl]).
+  rewrite !Hc. cbn [andb].
+  destruct (r_loc r); destruct (r_body r); vm_compute; reflexivity.
+Qed.
+
+Theorem security_headers_int (r : response) k v :
+  r_secured r = true -> H.tbl_lookup k HP.AT = Some v -> H.hget k (headers_of r) = [H.VStr v].
+Proof.
+  intros Hs Hk. unfold headers_of. rewrite Hs. apply HP.auth_headers_gen; [apply hops_ok | exact Hk].
+Qed.
+
+(* the error page of ErrorResponse, as data for the generated template *)
+Definition error_page_data (code : N) (title msg : str) : list (str * Html.value) :=
+  Html_pages_proofs.err_data code title msg.
+
+Theorem error_bodies_inert :
+  (forall code t1 m1 t2 m2,
+     match Html.render_page Gen_Templates.auth_templates Html_pages_proofs.n_error (error_page_data code t1 m1),
+           Html.render_page Gen_Templates.auth_templates Html_pages_proofs.n_error (error_page_data code t2 m2) with
+     | Some r1, Some r2 => Html.skeleton r1 = Html.skeleton r2 /\ Html.final_state r1 = Html.SData /\ Html.final_state r2 = Html.SData
+     | None, None => True
+     | _, _ => False
+     end) /\
+  (forall msg, Json.json_error_doc_ok (Json.auth_error_json msg) = true).
+Proof.
+  split.
+  - intros code t1 m1 t2 m2. destruct Html_pages_proofs.served_pages_inert as [_ [Hi _]].
+    apply Hi. apply Html_pages_proofs.err_data_agree.
+  - exact Json_proofs.auth_error_json_ok.
+Qed.
+
+(* ------------------------------------------------------------------------------------------ *)
+(* /sign_out end to end: C19's clauses behind C07's concrete gates, in the order of newMux *)
+
+Section SignOutRoute.
+Variable lower : str -> str.
+Variables (d : deployment) (o : oracles) (now_ns : Z) (slug : str) (p : F.pkind) (q : request) (an : answers).
+Let r := inner q p_sign_out.
+Let resp := serve_route lower d slug p q o an now_ns rt_sign_out r (B.init_state (d_pre d) r).
+Let ack := acookie_of (cookie_of d o (lookup slug (q_sess q))).
+Let uri := redirect_value r.
+
+Definition sign_out_gates_pass : Prop :=
+  (B.rq_method r = B.m_get \/ B.rq_method r = B.m_post) /\ init_err d r = false /\
+  G.valid_redirect_uri uri (root_domains d) = true /\
+  G.valid_signature now_ns uri (sigval_of o (sig_value r)) (ts_value r) (d_client_secret d) = true.
+
+Lemma method_get_post m : mem_str m [B.m_get; B.m_post] = true -> m = B.m_get \/ m = B.m_post.
+Proof. intros H. apply mem_str_In in H. destruct H as [H|[H|[]]]; auto. Qed.
+
+Lemma sign_out_cases :
+  (exists c, resp = gate_err r c /\ (c = 405 \/ c = 400) /\ ~ sign_out_gates_pass) \/
+  (sign_out_gates_pass /\ resp = h_sign_out d slug p q o an r (Some (the_form r))).
+Proof.
+  unfold resp. rewrite sign_out_flat. unfold method_ok, sign_out_gates_pass.
+  destruct (mem_str (B.rq_method r) [B.m_get; B.m_post]) eqn:Em; cbn [negb].
+  2:{ left. eexists. split; [reflexivity|]. split; [auto|]. intros [[Hm|Hm] _]; rewrite Hm in Em; discriminate Em. }
+  destruct (init_err d r) eqn:Ei.
+  { left. eexists. split; [reflexivity|]. split; [auto|]. intros [_ [X _]]. discriminate. }
+  destruct (gate_passes_b d o now_ns GRedirectURI r) eqn:E2; cbn [negb].
+  2:{ left. eexists. split; [reflexivity|]. split; [auto|]. intros [_ [_ [X _]]]. cbn [gate_passes_b] in E2. fold uri in E2. congruence. }
+  destruct (gate_passes_b d o now_ns GSignature r) eqn:E3; cbn [negb].
+  2:{ left. eexists. split; [reflexivity|]. split; [auto|]. intros [_ [_ [_ X]]]. cbn [gate_passes_b] in E3. fold uri in E3. congruence. }
+  right. split; [|reflexivity]. cbn [gate_passes_b] in E2, E3.
+  split; [apply method_get_post; exact Em|]. split; [reflexivity|]. split; assumption.
+Qed.
+
+(* C19_needs_valid_request *)
+Theorem signout_needs_valid_int : ~ sign_out_gates_pass ->
+  exists c, resp = gate_err r c /\ r_sess_ops resp = [] /\ r_calls resp = [] /\ r_loc resp = LNone.
+Proof.
+  intros Hn. destruct sign_out_cases as [[c [He _]]|[Hg _]]; [|contradiction].
+  exists c. rewrite He. repeat split; reflexivity.
+Qed.
+
+Definition has_clear (ops : list F.cookie_op) : Prop := In F.OpClear ops.
+
+(* the form values SignOut reads are the ones the gates validated (Form is set by then) *)
+Lemma h_sign_out_reads : B.form_get k_redirect_uri (B.form_of (Some (the_form r))) = uri.
+Proof. reflexivity. Qed.
+
+(* C19_revoke_then_clear / C19_get_is_passive / C19_revoked_is_own_token, on the real chain *)
+Theorem signout_sound_int :
+  (* cleared => valid confirmed POST; redirect; nothing to revoke, or revoked first *)
+  (has_clear (r_sess_ops resp) ->
+     B.rq_method r = B.m_post /\ sign_out_gates_pass /\ r_loc resp = LVerbatim uri /\ r_status resp = 302 /\
+     ((ack = S.ACJunk /\ r_calls resp = []) \/
+      exists s, ack = S.ACSealed s /\ r_calls resp = [CRevoke (S.revoke_token (sprov p) s)] /\
+                S.revoke_ok (sprov p) (an_revoke an) = true)) /\
+  (* a token reaches the IdP only as the presented session's own, on a valid POST *)
+  (forall tok, In (CRevoke tok) (r_calls resp) ->
+     exists s, ack = S.ACSealed s /\ tok = S.revoke_token (sprov p) s /\ B.rq_method r = B.m_post /\ sign_out_gates_pass) /\
+  (* GET never clears or revokes *)
+  (B.rq_method r = B.m_get -> r_sess_ops resp = [] /\ r_calls resp = []) /\
+  (* a loadable session on a valid POST: Revoke is always attempted; failure keeps the cookie *)
+  (forall s, ack = S.ACSealed s -> B.rq_method r = B.m_post -> sign_out_gates_pass ->
+     r_calls resp = [CRevoke (S.revoke_token (sprov p) s)] /\
+     (S.revoke_ok (sprov p) (an_revoke an) = false -> r_status resp = 500 /\ r_sess_ops resp = [] /\ r_loc resp = LNone) /\
+     (S.revoke_ok (sprov p) (an_revoke an) = true -> r_loc resp = LVerbatim uri /\ r_sess_ops resp = [F.OpClear])) /\
+  (* a redirect only behind both gates, to the validated URI; nothing but sign-out is ever called *)
+  (forall src, r_loc resp = LVerbatim src -> src = uri /\ sign_out_gates_pass) /\
+  (forall c, In c (r_calls resp) -> exists tok, c = CRevoke tok) /\
+  (forall s, ~ In (F.OpSet s) (r_sess_ops resp)).
+Proof.
+  assert (Hpost : B.m_post <> B.m_get) by discriminate.
+  destruct sign_out_cases as [[c [He [_ Hn]]]|[Hg He]]; rewrite He.
+  { cbn [gate_err err_with mk r_sess_ops r_calls r_loc r_status].
+    split; [intros []|]. split; [intros tok []|]. split; [auto|].
+    split; [intros s _ _ X; contradiction|]. split; [intros src X; discriminate X|].
+    split; [intros c0 []|]. intros s []. }
+  unfold h_sign_out. rewrite h_sign_out_reads. fold ack.
+  destruct (str_eqb (B.rq_method r) B.m_get) eqn:Em.
+  - apply str_eqb_eq in Em.
+    destruct ack as [| |s0] eqn:Ea; cbn [r_sess_ops r_calls r_loc r_status mk];
+      (split; [intros []|]; split; [intros tok []|]; split; [auto|];
+       split; [intros s _ Hm'; rewrite Em in Hm'; discriminate Hm'|];
+       split; [intros src X; first [discriminate X | inversion X; split; [reflexivity | exact Hg]]|];
+       split; [intros c0 []|]; intros s []).
+  - apply str_eqb_neq in Em.
+    assert (Hm : B.rq_method r = B.m_post) by (destruct Hg as [[X|X] _]; [contradiction | exact X]).
+    destruct ack as [| |s0] eqn:Ea.
+    + cbn [r_sess_ops r_calls r_loc r_status mk].
+      split; [intros []|]. split; [intros tok []|]. split; [intros X; contradiction|].
+      split; [intros s X; discriminate X|]. split; [intros src X; inversion X; auto|].
+      split; [intros c []|]. intros s [].
+    + cbn [r_sess_ops r_calls r_loc r_status mk].
+      split. { intros _. split; [exact Hm|]. split; [exact Hg|]. split; [reflexivity|]. split; [reflexivity|]. left. split; reflexivity. }
+      split; [intros tok []|]. split; [intros X; contradiction|].
+      split; [intros s X; discriminate X|]. split; [intros src X; inversion X; auto|].
+      split; [intros c []|]. intros s [X|[]]. discriminate X.
+    + destruct (S.revoke_ok (sprov p) (an_revoke an)) eqn:Er; cbn [r_sess_ops r_calls r_loc r_status mk].
+      * split. { intros _. split; [exact Hm|]. split; [exact Hg|]. split; [reflexivity|]. split; [reflexivity|]. right. exists s0. auto. }
+        split. { intros tok [X|[]]. inversion X. exists s0. auto. }
+        split; [intros X; contradiction|].
+        split. { intros s X _ _. inversion X; subst. split; [reflexivity|]. split; [intros; discriminate | auto]. }
+        split; [intros src X; inversion X; auto|].
+        split. { intros c [X|[]]. eexists. symmetry. exact X. }
+        intros s [X|[]]. discriminate X.
+      * split; [intros []|].
+        split. { intros tok [X|[]]. inversion X. exists s0. auto. }
+        split; [intros X; contradiction|].
+        split. { intros s X _ _. inversion X; subst. split; [reflexivity|]. split; [auto | intros; discriminate]. }
+        split; [intros src X; discriminate X|].
+        split. { intros c [X|[]]. eexists. symmetry. exact X. }
+        intros s [].
+Qed.
+
+(* C07 on the redirect that is followed: host in a root domain under every RFC reading, signed fresh *)
+Theorem signout_redirect_int src : r_loc resp = LVerbatim src ->
+  (forall sch ui h port rest, Url.rfc_split src sch ui h port rest ->
+     G.in_domain (Url.rfc_hostname h) (d_proxy_domains d)) /\
+  exists t, G.parse_int (ts_value r) = Some t /\
+            sigval_of o (sig_value r) = G.SigTag (G.Mac (d_client_secret d) (src ++ G.dec t)) /\
+            (now_ns - t * ns <= G.ttl_ns)%Z.
+Proof.
+  intros Hl. destruct signout_sound_int as [_ [_ [_ [_ [H5 _]]]]]. destruct (H5 src Hl) as [-> [_ [_ [Hu Hs]]]].
+  split. { intros sch ui h port rest Hsp. exact (GP.host_in_domain _ _ _ _ _ _ _ Hu Hsp). }
+  destruct (GP.valid_signature_sound _ _ _ _ _ Hs) as [_ [_ [_ [_ [t [Ht [Hm Ha]]]]]]].
+  exists t. auto.
+Qed.
+
+End SignOutRoute.
+
+(* ------------------------------------------------------------------------------------------ *)
+(* /start: a login is started at the provider only for validated outer and nested URIs, the nested
+   one signed and fresh (C07_idp_start_gated with the concrete gates; C09's CSRF cookie) *)
+
+Section StartRoute.
+Variable lower : str -> str.
+Variables (d : deployment) (o : oracles) (now_ns : Z) (slug : str) (p : F.pkind) (q : request) (an : answers).
+Let r := inner q p_start.
+Let resp := serve_route lower d slug p q o an now_ns rt_start r (B.init_state (d_pre d) r).
+Let raw := B.form_get k_redirect_uri (B.url_query r).
+
+Theorem start_sound_int st : r_loc resp = LIdP st ->
+  B.rq_method r = B.m_get /\
+  exists a b nraw nsig nts,
+    o_parse_string o raw = Some a /\ o_nested o raw = (nraw, nsig, nts) /\ o_parse_string o nraw = Some b /\
+    G.valid_redirect_uri a (root_domains d) = true /\ G.valid_redirect_uri b (root_domains d) = true /\
+    G.valid_signature now_ns b (sigval_of o nsig) nts (d_client_secret d) = true /\
+    st = an_nonce an ++ F.colon :: a /\
+    r_csrf_ops resp = [F.mkSC (an_nonce an) false] /\ r_status resp = 302 /\ r_sess_ops resp = [] /\ r_calls resp = [].
+Proof.
+  unfold resp. rewrite start_flat. unfold method_ok.
+  destruct (mem_str (B.rq_method r) [B.m_get]) eqn:Em; cbn [negb]; [|discriminate].
+  unfold h_start, start_request_of. fold raw.
+  destruct (o_parse_string o raw) as [a|] eqn:Ea; [|discriminate].
+  destruct (o_nested o raw) as [[nraw nsig] nts] eqn:En.
+  destruct (o_parse_string o nraw) as [b|] eqn:Eb.
+  2:{ unfold F.oauth_start. cbn. destruct (G.valid_redirect_uri a (root_domains d)); discriminate. }
+  unfold F.oauth_start. cbn [F.st_get F.st_outer_ok F.st_inner_ok F.st_sig_ok F.st_redirect negb].
+  destruct (G.valid_redirect_uri a (root_domains d)) eqn:E1; cbn [negb]; [|discriminate].
+  destruct (G.valid_redirect_uri b (root_domains d)) eqn:E2; cbn [negb]; [|discriminate].
+  destruct (G.valid_signature now_ns b (sigval_of o nsig) nts (d_client_secret d)) eqn:E3; cbn [negb]; [|discriminate].
+  unfold of_flow_start. cbn. intros H. inversion H; subst.
+  split; [apply method_get_only; exact Em|]. exists a, b, nraw, nsig, nts. repeat split; auto.
+Qed.
+
+(* the CSRF cookie is set before anything is validated (authenticator.go:462-463) *)
+Lemma start_sets_csrf : B.rq_method r = B.m_get -> r_csrf_ops resp = [F.mkSC (an_nonce an) false].
+Proof.
+  intros Hm. unfold resp. rewrite start_flat. unfold method_ok. rewrite Hm. cbn [mem_str]. rewrite str_eqb_refl. cbn [orb negb].
+  assert (Hg : F.st_get (start_request_of d o now_ns r) = true).
+  { unfold start_request_of. destruct (o_parse_string o _); [|reflexivity].
+    destruct (o_nested o _) as [[? ?] ?]. destruct (o_parse_string o _); reflexivity. }
+  unfold h_start, F.oauth_start. rewrite Hg. cbn [negb].
+  destruct (F.st_outer_ok _); [destruct (F.st_inner_ok _); [destruct (F.st_sig_ok _)|]|]; reflexivity.
+Qed.
+
+End StartRoute.
+
+(* ------------------------------------------------------------------------------------------ *)
+(* ADAPTER to C19's model: behind its gates, SignOut.auth_sign_out IS the integrated handler, for
+   every MAC function — so C19's history theorems speak about this handler *)
+
+Definition aresp_of (r : response) : S.aresp :=
+  {| S.r_body := match r_loc r, r_body r with
+                 | LVerbatim u, _ => S.BRedirect u
+                 | _, BSignOutPage em u sg ts _ => S.BPage (Z.of_N (r_status r)) em u sg ts
+                 | _, _ => S.BGate (Z.of_N (r_status r))
+                 end;
+     S.r_clears := existsb (fun op => match op with F.OpClear => true | _ => false end) (r_sess_ops r);
+     S.r_revoked := flat_map (fun c => match c with CRevoke t => [t] | _ => [] end) (r_calls r) |}.
+
+Definition smethod (m : str) : S.method :=
+  if str_eqb m B.m_get then S.MGet else if str_eqb m B.m_post then S.MPost else S.MOther.
+
+Theorem signout_handler_is_C19 (mac : str -> str -> str) secret now' d slug p q o an (r : B.request) parses dom :
+  let qa := {| S.q_method := smethod (B.rq_method r); S.q_uri := redirect_value r; S.q_sig := sig_value r;
+               S.q_ts := ts_value r; S.q_parses := parses; S.q_in_domain := dom;
+               S.q_cookie := acookie_of (cookie_of d o (lookup slug (q_sess q))); S.q_idp := an_revoke an |} in
+  SP.gates_pass mac secret now' qa = true -> smethod (B.rq_method r) <> S.MOther ->
+  S.auth_sign_out mac secret (sprov p) now' qa = aresp_of (h_sign_out d slug p q o an r (Some (the_form r))).
+Proof.
+  cbv zeta. unfold SP.gates_pass. cbn [S.q_in_domain S.q_uri S.q_sig S.q_ts S.q_parses].
+  intros Hg Hm. apply andb_true_iff in Hg as [Hd Hs].
+  unfold S.auth_sign_out. cbn [S.q_method S.q_in_domain S.q_uri S.q_sig S.q_ts S.q_parses S.q_cookie S.q_idp].
+  rewrite Hd, Hs. cbn [negb]. unfold h_sign_out.
+  change (B.form_get k_redirect_uri (B.form_of (Some (the_form r)))) with (redirect_value r).
+  change (B.form_get k_sig (B.form_of (Some (the_form r)))) with (sig_value r).
+  change (B.form_get k_ts (B.form_of (Some (the_form r)))) with (ts_value r).
+  unfold smethod in *. destruct (str_eqb (B.rq_method r) B.m_get).
+  - destruct (acookie_of _); reflexivity.
+  - destruct (str_eqb (B.rq_method r) B.m_post); [|contradiction].
+    destruct (acookie_of _); try reflexivity. destruct (S.revoke_ok _ _); reflexivity.
+Qed.
+
+(* ------------------------------------------------------------------------------------------ *)
+(* ADAPTER to C07's route view (AuthGates.serve): the request as AuthGates sees it is COMPUTED
+   from the concrete request (its oracle fields q_form_ok, q_client_id, q_uri, q_sig, q_session,
+   q_cb_state ... become functions of bytes, cookies and provider answers), and AuthGates.serve
+   then agrees with the integration model on where the browser is sent *)
+
+Definition loc_agrees (oc : G.outcome) (resp : response) : Prop :=
+  match oc with
+  | G.ORedirect src G.WithCode => exists s, r_loc resp = LCode src s
+  | G.ORedirect src G.Verbatim => r_loc resp = LVerbatim src
+  | G.OIdP a => exists n, r_loc resp = LIdP (n ++ F.colon :: a)
+  | G.OErr st => r_loc resp = LNone /\ (r_ran resp = None -> r_status resp = st)
+  | G.OPage _ => r_loc resp = LNone
+  end.
+
+Lemma valid_redirect_nonempty u ds : G.valid_redirect_uri u ds = true -> u <> [] /\ Url.go_parse u <> None.
+Proof.
+  unfold G.valid_redirect_uri. destruct (Url.go_parse u); [|discriminate].
+  intros H. apply andb_true_iff in H as [H _]. apply andb_true_iff in H as [H _].
+  split; [|discriminate]. destruct u; [discriminate | discriminate].
+Qed.
+
+Section GatesView.
+Variable lower : str -> str.
+Variables (d : deployment) (o : oracles) (now_ns : Z) (slug : str) (p : F.pkind) (q : request) (an : answers).
+Let now_s := (now_ns / ns)%Z.
+Let ck := cookie_of d o (lookup slug (q_sess q)).
+Notation route_resp rt r := (serve_route lower d slug p q o an now_ns rt r (B.init_state (d_pre d) r)).
+
+Definition gmeth (m : str) : G.meth :=
+  if str_eqb m B.m_get then G.GET else if str_eqb m B.m_post then G.POST else G.MOther.
+
+Definition gview (r : B.request) (sess : G.session) : G.request :=
+  {| G.q_meth := gmeth (B.rq_method r); G.q_form_ok := negb (init_err d r);
+     G.q_client_id := B.presented_id r; G.q_uri := redirect_value r;
+     G.q_sig := sigval_of o (sig_value r); G.q_ts := ts_value r;
+     G.q_state := B.form_get k_state (the_form r); G.q_session := sess; G.q_provider_valid := true;
+     G.q_revoke_ok := S.revoke_ok (sprov p) (an_revoke an);
+     G.q_query_ok := o_query_ok o (redirect_value r);
+     G.q_outer := None; G.q_nested := None; G.q_cb_error := false; G.q_cb_code_empty := false;
+     G.q_cb_redeem_ok := false; G.q_cb_state := G.StBad; G.q_cb_csrf := None; G.q_cb_user_ok := false |}.
+
+(* authenticate(), reduced to AuthGates' three situations *)
+Definition gsess_sign_in : G.session :=
+  match F.ao_res (F.auth_authenticate lower (fcfg d) p now_s ck (an_refresh an) (an_validate an)) with
+  | inr _ => G.SessGood
+  | inl F.ENoCookie => G.SessNone
+  | inl _ => G.SessBad
+  end.
+Definition gsess_sign_out : G.session :=
+  match acookie_of ck with S.ACNone => G.SessNone | S.ACJunk => G.SessBad | S.ACSealed _ => G.SessGood end.
+
+Lemma gate_methods_get (rq : G.request) k :
+  G.gate_methods [G.GET] rq k = match G.q_meth rq with G.GET => k | _ => G.OErr 405 end.
+Proof. unfold G.gate_methods. cbn. destruct (G.q_meth rq); reflexivity. Qed.
+
+Lemma gmeth_get m : (gmeth m = G.GET) <-> mem_str m [B.m_get] = true.
+Proof.
+  unfold gmeth. cbn [mem_str]. destruct (str_eqb m B.m_get); cbn; [tauto|].
+  destruct (str_eqb m B.m_post); split; discriminate.
+Qed.
+
+Theorem gates_view_sign_in r :
+  loc_agrees (G.serve (gcfg d) now_ns G.EpSignIn (gview r gsess_sign_in)) (route_resp rt_sign_in r).
+Proof.
+  rewrite sign_in_flat. cbn [G.serve]. rewrite gate_methods_get. cbn [G.q_meth gview]. unfold method_ok.
+  destruct (mem_str (B.rq_method r) [B.m_get]) eqn:Em; cbn [negb].
+  2:{ destruct (gmeth (B.rq_method r)) eqn:Eg; [apply gmeth_get in Eg; congruence| |]; split; reflexivity. }
+  apply gmeth_get in Em. rewrite Em.
+  unfold G.gate_client_id, G.gate_redirect_uri, G.gate_signature. cbn [G.q_form_ok G.q_client_id G.q_uri G.q_sig G.q_ts gview G.c_client_id G.c_secret gcfg].
+  destruct (init_err d r) eqn:Ei; cbn [negb]; [split; reflexivity|].
+  cbn [gate_passes_b]. destruct (str_eqb (B.presented_id r) (d_client_id d)); cbn [negb]; [|split; reflexivity].
+  change (G.root_domains (gcfg d)) with (root_domains d).
+  destruct (G.valid_redirect_uri (redirect_value r) (root_domains d)) eqn:E2; cbn [negb]; [|split; reflexivity].
+  destruct (G.valid_signature now_ns (redirect_value r) (sigval_of o (sig_value r)) (ts_value r) (d_client_secret d)); cbn [negb]; [|split; reflexivity].
+  destruct (valid_redirect_nonempty _ _ E2) as [Hne Hp].
+  unfold G.sign_in_handler, gsess_sign_in. cbn [G.q_session G.q_provider_valid gview].
+  unfold h_sign_in, of_flow_sign_in, F.sign_in. cbn [B.parse_form fst B.form_of].
+  change (B.form_get k_redirect_uri (the_form r)) with (redirect_value r). fold ck now_s.
+  destruct (F.ao_res (F.auth_authenticate lower (fcfg d) p now_s ck (an_refresh an) (an_validate an))) as [[]|s0];
+    try (cbn; reflexivity).
+  unfold G.proxy_oauth_redirect, F.proxy_oauth_redirect. cbn [G.q_form_ok G.q_state G.q_uri G.q_query_ok gview F.si_state].
+  rewrite Ei. cbn [negb].
+  destruct (B.form_get k_state (the_form r)) as [|c0 st]; [cbn; split; [reflexivity | discriminate]|].
+  cbn [Url.is_nil F.is_nil].
+  assert (Hn : Url.is_nil (redirect_value r) = false) by (destruct (redirect_value r); [congruence | reflexivity]).
+  rewrite Hn. destruct (Url.go_parse (redirect_value r)) eqn:Egp; [|congruence].
+  cbn [F.r_code]. destruct (o_query_ok o (redirect_value r)); cbn [negb].
+  - exists s0. reflexivity.
+  - split; [reflexivity | discriminate].
+Qed.
+
+Lemma gate_methods_get_post (rq : G.request) k :
+  G.gate_methods [G.GET; G.POST] rq k = match G.q_meth rq with G.MOther => G.OErr 405 | _ => k end.
+Proof. unfold G.gate_methods. cbn. destruct (G.q_meth rq); reflexivity. Qed.
+
+Theorem gates_view_sign_out r :
+  loc_agrees (G.serve (gcfg d) now_ns G.EpSignOut (gview r gsess_sign_out)) (route_resp rt_sign_out r).
+Proof.
+  rewrite sign_out_flat. cbn [G.serve]. rewrite gate_methods_get_post. cbn [G.q_meth gview]. unfold method_ok, gmeth. cbn [mem_str].
+  destruct (str_eqb (B.rq_method r) B.m_get) eqn:Eg; cbn [orb negb];
+    [|destruct (str_eqb (B.rq_method r) B.m_post) eqn:Ep; cbn [orb negb]; [|split; reflexivity]].
+  all: unfold G.gate_redirect_uri, G.gate_signature; cbn [G.q_form_ok G.q_uri G.q_sig G.q_ts gview G.c_secret gcfg];
+    (destruct (init_err d r); cbn [negb]; [split; reflexivity|]);
+    cbn [gate_passes_b]; change (G.root_domains (gcfg d)) with (root_domains d);
+    (destruct (G.valid_redirect_uri (redirect_value r) (root_domains d)); cbn [negb]; [|split; reflexivity]);
+    (destruct (G.valid_signature now_ns (redirect_value r) (sigval_of o (sig_value r)) (ts_value r) (d_client_secret d)); cbn [negb]; [|split; reflexivity]);
+    unfold G.sign_out_handler, gsess_sign_out, h_sign_out; cbn [G.q_meth G.q_session G.q_revoke_ok G.q_uri gview];
+    unfold gmeth; rewrite Eg; try rewrite Ep; fold ck;
+    change (B.form_get k_redirect_uri (B.form_of (Some (the_form r)))) with (redirect_value r).
+  - destruct (acookie_of ck); reflexivity.
+  - destruct (acookie_of ck); try reflexivity. destruct (S.revoke_ok (sprov p) (an_revoke an)); reflexivity.
+Qed.
+
+(* /start *)
+Definition gview_start (r : B.request) : G.request :=
+  let raw := B.form_get k_redirect_uri (B.url_query r) in
+  let '(nraw, nsig, nts) := o_nested o raw in
+  {| G.q_meth := gmeth (B.rq_method r); G.q_form_ok := true; G.q_client_id := []; G.q_uri := [];
+     G.q_sig := sigval_of o nsig; G.q_ts := nts; G.q_state := []; G.q_session := G.SessNone;
+     G.q_provider_valid := false; G.q_revoke_ok := false; G.q_query_ok := true;
+     G.q_outer := o_parse_string o raw;
+     G.q_nested := match o_parse_string o raw with Some _ => o_parse_string o nraw | None => None end;
+     G.q_cb_error := false; G.q_cb_code_empty := false; G.q_cb_redeem_ok := false; G.q_cb_state := G.StBad;
+     G.q_cb_csrf := None; G.q_cb_user_ok := false |}.
+
+Theorem gates_view_start r :
+  loc_agrees (G.serve (gcfg d) now_ns G.EpStart (gview_start r)) (route_resp rt_start r).
+Proof.
+  rewrite start_flat. cbn [G.serve]. rewrite gate_methods_get. unfold gview_start, method_ok.
+  destruct (o_nested o (B.form_get k_redirect_uri (B.url_query r))) as [[nraw nsig] nts] eqn:En.
+  cbn [G.q_meth].
+  destruct (mem_str (B.rq_method r) [B.m_get]) eqn:Em; cbn [negb].
+  2:{ destruct (gmeth (B.rq_method r)) eqn:Eg; [apply gmeth_get in Eg; congruence| |]; split; reflexivity. }
+  apply gmeth_get in Em. rewrite Em.
+  unfold G.oauth_start, h_start, start_request_of. rewrite En. cbn [G.q_outer G.q_nested G.q_sig G.q_ts G.c_secret gcfg].
+  change (G.root_domains (gcfg d)) with (root_domains d).
+  destruct (o_parse_string o (B.form_get k_redirect_uri (B.url_query r))) as [a|]; [|split; reflexivity].
+  destruct (o_parse_string o nraw) as [b|].
+  2:{ unfold F.oauth_start, of_flow_start. cbn. destruct (G.valid_redirect_uri a (root_domains d)); cbn; split; reflexivity. }
+  unfold F.oauth_start, of_flow_start. cbn [F.st_get F.st_outer_ok F.st_inner_ok F.st_sig_ok F.st_redirect negb].
+  destruct (G.valid_redirect_uri a (root_domains d)); cbn [negb]; [|split; reflexivity].
+  destruct (G.valid_redirect_uri b (root_domains d)); cbn [negb]; [|split; reflexivity].
+  destruct (G.valid_signature now_ns b (sigval_of o nsig) nts (d_client_secret d)); cbn [negb]; [|split; reflexivity].
+  cbn. exists (an_nonce an). reflexivity.
+Qed.
+
+(* /callback *)
+Definition gview_cb (r : B.request) : G.request :=
+  let fm := the_form r in
+  let rd := rd_of p an (B.form_get B.k_code fm) in
+  {| G.q_meth := gmeth (B.rq_method r); G.q_form_ok := negb (init_err d r); G.q_client_id := []; G.q_uri := [];
+     G.q_sig := G.SigAbsent; G.q_ts := []; G.q_state := []; G.q_session := G.SessNone;
+     G.q_provider_valid := false; G.q_revoke_ok := false; G.q_query_ok := true; G.q_outer := None; G.q_nested := None;
+     G.q_cb_error := negb (F.is_nil (B.form_get k_error fm));
+     G.q_cb_code_empty := F.is_nil (B.form_get B.k_code fm);
+     G.q_cb_redeem_ok := match rd with F.RdTokens email _ _ _ => negb (F.is_nil email) | F.RdErr => false end;
+     G.q_cb_state := match S.b64_decode (B.form_get k_state fm) with
+                     | None => G.StBad
+                     | Some plain => match F.split_first_colon plain with
+                                     | None => G.StNoColon
+                                     | Some (n, rdr) => G.StPair n rdr
+                                     end
+                     end;
+     G.q_cb_csrf := lookup slug (q_csrf q);
+     G.q_cb_user_ok := match rd with F.RdTokens email _ _ _ => F.rule_passes lower (fcfg d) email | F.RdErr => false end |}.
+
+Theorem gates_view_callback r :
+  loc_agrees (G.serve (gcfg d) now_ns G.EpCallback (gview_cb r)) (route_resp rt_callback r).
+Proof.
+  rewrite callback_flat. cbn [G.serve]. rewrite gate_methods_get. unfold method_ok. cbn [G.q_meth gview_cb].
+  destruct (mem_str (B.rq_method r) [B.m_get]) eqn:Em; cbn [negb].
+  2:{ destruct (gmeth (B.rq_method r)) eqn:Eg; [apply gmeth_get in Eg; congruence| |]; split; reflexivity. }
+  apply gmeth_get in Em. rewrite Em.
+  unfold h_callback. rewrite (BP.parse_form_ok r _ (BP.init_state_ok (d_pre d) r)).
+  change (BP.pending_err r (B.init_state (d_pre d) r)) with (pending_err r (B.init_state (d_pre d) r)).
+  rewrite init_pending. unfold G.oauth_callback. cbn [G.q_form_ok gview_cb].
+  destruct (init_err d r); cbn [negb]; [split; [reflexivity | discriminate]|].
+  unfold of_flow_callback, F.oauth_callback, cb_request_of.
+  cbn [F.cb_get F.cb_error F.cb_code F.cb_state F.cb_csrf F.cb_redirect_ok negb B.form_of
+       G.q_cb_error G.q_cb_code_empty G.q_cb_redeem_ok G.q_cb_state G.q_cb_csrf G.q_cb_user_ok gview_cb].
+  change (BP.the_form r) with (the_form r).
+  destruct (F.is_nil (B.form_get k_error (the_form r))); cbn [negb]; [|split; [reflexivity | discriminate]].
+  destruct (F.is_nil (B.form_get B.k_code (the_form r))); [split; [reflexivity | discriminate]|].
+  destruct (rd_of p an (B.form_get B.k_code (the_form r))) as [|email access rtok dur]; [split; [reflexivity | discriminate]|].
+  destruct (F.is_nil email); cbn [negb]; [split; [reflexivity | discriminate]|].
+  destruct (S.b64_decode (B.form_get k_state (the_form r))) as [plain|]; [|split; [reflexivity | discriminate]].
+  destruct (F.split_first_colon plain) as [[n rdr]|]; [|split; [reflexivity | discriminate]].
+  destruct (lookup slug (q_csrf q)) as [cv|]; [|split; [reflexivity | discriminate]].
+  destruct (str_eqb cv n); cbn [negb]; [|split; [reflexivity | discriminate]].
+  change (G.root_domains (gcfg d)) with (root_domains d).
+  destruct (G.valid_redirect_uri rdr (root_domains d)); cbn [negb]; [|split; [reflexivity | discriminate]].
+  destruct (F.rule_passes lower (fcfg d) email); cbn [negb]; [|split; [reflexivity | discriminate]].
+  reflexivity.
+Qed.
+
+End GatesView.
+
+(* ------------------------------------------------------------------------------------------ *)
+(* lifting to [serve]: which route can produce which effect, over ALL requests *)
+
+Section Whole.
+Variable lower : str -> str.
+Variables (d : deployment) (q : request) (o : oracles) (an : answers) (now_ns : Z).
+Let resp := serve lower d q o an now_ns.
+Notation route_at slug k rt rest :=
+  (serve_route lower d slug k q o an now_ns rt (inner q rest) (B.init_state (d_pre d) (inner q rest))).
+
+Lemma serve_routed slug k rest : routed d q slug k rest -> resp = serve_auth lower d slug k q rest o an now_ns.
+Proof.
+  intros [Hp [Hh [Hc Hf]]]. unfold resp, serve.
+  apply str_eqb_neq in Hp. rewrite Hp. apply str_eqb_eq in Hh. rewrite Hh. cbn [negb].
+  rewrite Hc, str_eqb_refl. cbn [negb]. rewrite Hf. reflexivity.
+Qed.
+
+Lemma serve_auth_at slug k rest rt : ReqUri.clean_path rest = rest -> find_route rest all_routes = Some rt ->
+  serve_auth lower d slug k q rest o an now_ns = route_at slug k rt rest.
+Proof. intros Hc Hf. unfold serve_auth. rewrite Hc, str_eqb_refl. cbn [negb]. rewrite Hf. reflexivity. Qed.
+
+(* the response classes of each route *)
+Inductive shape := ShNone | ShStart | ShSignIn | ShSignOut | ShCallback | ShBack (h : B.handler).
+
+Definition shape_ok (sh : shape) (r : response) : Prop :=
+  match sh with
+  | ShNone => no_effect r
+  | ShStart => (r_loc r = LNone \/ exists st, r_loc r = LIdP st) /\ r_sess_ops r = [] /\ r_calls r = []
+  | ShSignIn => (r_loc r = LNone \/ exists src s, r_loc r = LCode src s) /\ r_csrf_ops r = [] /\
+                (forall c, In c (r_calls r) -> exists x, c = CIdp x)
+  | ShSignOut => (r_loc r = LNone \/ exists src, r_loc r = LVerbatim src) /\ r_csrf_ops r = [] /\
+                 (forall c, In c (r_calls r) -> exists t, c = CRevoke t) /\ (forall s, ~ In (F.OpSet s) (r_sess_ops r))
+  | ShCallback => (r_loc r = LNone \/ exists src, r_loc r = LVerbatim src) /\
+                  (forall c, In c (r_calls r) -> exists x, c = CIdp x) /\ ~ In F.OpClear (r_sess_ops r)
+  | ShBack h => r_loc r = LNone /\ r_csrf_ops r = [] /\ (forall s, ~ In (F.OpSet s) (r_sess_ops r)) /\
+                (forall c, In c (r_calls r) -> exists x, c = CIdp x)
+  end.
+
+Lemma gate_err_shapes r c sh : sh <> ShNone -> shape_ok sh (gate_err r c).
+Proof.
+  intros Hn. destruct sh; try contradiction; cbn; repeat split; auto; try (intros ? []); try (intros ? ? ; contradiction).
+Qed.
+
+Lemma calls_of_flow_idp l c : In c (calls_of_flow l) -> exists x, c = CIdp x.
+Proof. unfold calls_of_flow. intros H. apply in_map_iff in H as [x [<- _]]. eexists. reflexivity. Qed.
+
+Lemma start_shape slug k : shape_ok ShStart (route_at slug k rt_start p_start).
+Proof.
+  rewrite start_flat. destruct (negb _); [apply gate_err_shapes; discriminate|].
+  unfold h_start, of_flow_start. destruct (F.sr_state _); cbn; repeat split; auto. right. eexists. reflexivity.
+Qed.
+
+Lemma sign_in_shape slug k : shape_ok ShSignIn (route_at slug k rt_sign_in p_sign_in).
+Proof.
+  rewrite sign_in_flat.
+  repeat match goal with |- context [if ?b then gate_err _ _ else _] => destruct b; [apply gate_err_shapes; discriminate|] end.
+  unfold h_sign_in, of_flow_sign_in.
+  destruct (F.r_code _); [destruct (o_query_ok _ _)|destruct (F.r_body _)]; cbn;
+    (split; [first [left; reflexivity | right; eexists; eexists; reflexivity]|]; split; [reflexivity|]; apply calls_of_flow_idp).
+Qed.
+
+Lemma sign_out_shape slug k : shape_ok ShSignOut (route_at slug k rt_sign_out p_sign_out).
+Proof.
+  destruct (signout_sound_int lower d o now_ns slug k q an) as [_ [_ [_ [_ [_ [H6 H7]]]]]].
+  cbn [shape_ok]. split; [|split; [|split; [exact H6 | exact H7]]].
+  - destruct (sign_out_cases lower d o now_ns slug k q an) as [[c [-> _]]|[_ ->]]; [left; reflexivity|].
+    unfold h_sign_out. destruct (str_eqb _ _); destruct (acookie_of _); cbn; auto; try (right; eexists; reflexivity).
+    destruct (S.revoke_ok _ _); cbn; auto. right. eexists. reflexivity.
+  - destruct (sign_out_cases lower d o now_ns slug k q an) as [[c [-> _]]|[_ ->]]; [reflexivity|].
+    unfold h_sign_out. destruct (str_eqb _ _); destruct (acookie_of _); cbn; auto.
+    destruct (S.revoke_ok _ _); reflexivity.
+Qed.
+
+Lemma callback_shape slug k : shape_ok ShCallback (route_at slug k rt_callback p_callback).
+Proof.
+  destruct (callback_cases lower d o now_ns slug k q an) as [[c [-> _]]|[->|[_ [_ ->]]]];
+    try (cbn; repeat split; auto; try (intros ? []); intros []).
+  unfold of_flow_callback. destruct (F.cr_saved _); [destruct (F.cr_location _)|]; cbn;
+    (split; [first [left; reflexivity | right; eexists; reflexivity]|]; split; [apply calls_of_flow_idp|]).
+  - intros [X|[]]. discriminate X.
+  - intros [].
+  - intros [].
+Qed.
+
+Lemma back_shape slug k h : shape_ok (ShBack h) (route_at slug k (rt_back h) (rt_path (rt_back h))).
+Proof.
+  rewrite back_flat.
+  repeat match goal with |- context [if ?b then gate_err _ _ else _] => destruct b; [apply gate_err_shapes; discriminate|] end.
+  unfold h_back, of_back_handler. cbn. split; [reflexivity|]. split; [reflexivity|]. split.
+  - intros s. destruct (match h with B.HRedeem => _ | _ => false end); [intros [X|[]]; discriminate X | intros []].
+  - intros c Hin. apply in_flat_map in Hin as [x [_ Hx]]. destruct x; cbn in Hx; try contradiction;
+      destruct Hx as [<-|[]]; eexists; reflexivity.
+Qed.
+
+(* every response has the shape of the route it was served by *)
+Theorem serve_shape :
+  shape_ok ShNone resp \/
+  exists slug k rest, routed d q slug k rest /\
+    ((rest = p_start /\ resp = route_at slug k rt_start p_start /\ shape_ok ShStart resp) \/
+     (rest = p_sign_in /\ resp = route_at slug k rt_sign_in p_sign_in /\ shape_ok ShSignIn resp) \/
+     (rest = p_sign_out /\ resp = route_at slug k rt_sign_out p_sign_out /\ shape_ok ShSignOut resp) \/
+     (rest = p_callback /\ resp = route_at slug k rt_callback p_callback /\ shape_ok ShCallback resp) \/
+     (exists h, rest = rt_path (rt_back h) /\ resp = route_at slug k (rt_back h) (rt_path (rt_back h)) /\
+                shape_ok (ShBack h) resp)).
+Proof.
+  destruct (serve_inv lower d q o an now_ns) as [[_ [Hn _]]|[slug [k [rest [Hr He]]]]]; [left; exact Hn|].
+  fold resp in He.
+  pose proof (serve_auth_cases lower d slug k q rest o an now_ns) as Hc. cbv zeta in Hc. rewrite <- He in Hc.
+  destruct Hc as [[Hn _]|Hc]; [left; exact Hn|]. right. exists slug, k, rest. split; [exact Hr|].
+  destruct Hc as [[-> E]|[[-> E]|[[-> E]|[[-> E]|[h [-> E]]]]]].
+  - left. split; [reflexivity|]. split; [exact E|]. rewrite E. apply start_shape.
+  - right; left. split; [reflexivity|]. split; [exact E|]. rewrite E. apply sign_in_shape.
+  - right; right; left. split; [reflexivity|]. split; [exact E|]. rewrite E. apply sign_out_shape.
+  - right; right; right; left. split; [reflexivity|]. split; [exact E|]. rewrite E. apply callback_shape.
+  - right; right; right; right. exists h. split; [reflexivity|]. split; [exact E|]. rewrite E. apply back_shape.
+Qed.
+
+(* a Location that carries a code comes from /sign_in and from nowhere else *)
+Lemma code_only_sign_in src s : r_loc resp = LCode src s ->
+  exists slug k, routed d q slug k p_sign_in /\ resp = route_at slug k rt_sign_in p_sign_in.
+Proof.
+  intros Hl. destruct serve_shape as [[_ [_ [_ [_ [[X|[? X]] _]]]]]|[slug [k [rest [Hr Hc]]]]];
+    try (rewrite Hl in X; discriminate X).
+  destruct Hc as [[-> [E [[X|[? X]] _]]]|[[-> [E _]]|[[-> [E [[X|[? X]] _]]]|[[-> [E [[X|[? X]] _]]]|[h [-> [E [X _]]]]]]]];
+    try (rewrite Hl in X; discriminate X).
+  exists slug, k. split; assumption.
+Qed.
+
+(* a session cookie is SET by /callback or (as a re-save) by /sign_in, and by nothing else *)
+Lemma set_only_callback_or_sign_in s : In (F.OpSet s) (r_sess_ops resp) ->
+  exists slug k, (routed d q slug k p_callback /\ resp = route_at slug k rt_callback p_callback) \/
+                 (routed d q slug k p_sign_in /\ resp = route_at slug k rt_sign_in p_sign_in).
+Proof.
+  intros Hin. destruct serve_shape as [[_ [X _]]|[slug [k [rest [Hr Hc]]]]].
+  { rewrite X in Hin. contradiction. }
+  destruct Hc as [[-> [E [_ [X _]]]]|[[-> [E _]]|[[-> [E [_ [_ [_ X]]]]]|[[-> [E _]]|[h [-> [E [_ [_ [X _]]]]]]]]]].
+  - rewrite X in Hin. contradiction.
+  - exists slug, k. right. split; assumption.
+  - exfalso. exact (X s Hin).
+  - exists slug, k. left. split; assumption.
+  - exfalso. exact (X s Hin).
+Qed.
+
+(* a token is revoked at the IdP by /sign_out only; a login is started at the IdP by /start only *)
+Lemma revoke_only_sign_out tok : In (CRevoke tok) (r_calls resp) ->
+  exists slug k, routed d q slug k p_sign_out /\ resp = route_at slug k rt_sign_out p_sign_out.
+Proof.
+  intros Hin. destruct serve_shape as [[_ [_ [_ [X _]]]]|[slug [k [rest [Hr Hc]]]]].
+  { rewrite X in Hin. contradiction. }
+  destruct Hc as [[-> [E [_ [_ X]]]]|[[-> [E [_ [_ X]]]]|[[-> [E _]]|[[-> [E [_ [X _]]]]|[h [-> [E [_ [_ [_ X]]]]]]]]]].
+  - rewrite X in Hin. contradiction.
+  - destruct (X _ Hin) as [x Hx]. discriminate Hx.
+  - exists slug, k. split; assumption.
+  - destruct (X _ Hin) as [x Hx]. discriminate Hx.
+  - destruct (X _ Hin) as [x Hx]. discriminate Hx.
+Qed.
+
+Lemma idp_only_start st : r_loc resp = LIdP st ->
+  exists slug k, routed d q slug k p_start /\ resp = route_at slug k rt_start p_start.
+Proof.
+  intros Hl. destruct serve_shape as [[_ [_ [_ [_ [[X|[? X]] _]]]]]|[slug [k [rest [Hr Hc]]]]];
+    try (rewrite Hl in X; discriminate X).
+  destruct Hc as [[-> [E _]]|[[-> [E [[X|[? [? X]]] _]]]|[[-> [E [[X|[? X]] _]]]|[[-> [E [[X|[? X]] _]]]|[h [-> [E [X _]]]]]]]];
+    try (rewrite Hl in X; discriminate X).
+  exists slug, k. split; assumption.
+Qed.
+
+(* a verbatim redirect to a caller-supplied URI: /sign_out or /callback *)
+Lemma verbatim_only_sign_out_or_callback src : r_loc resp = LVerbatim src ->
+  exists slug k, (routed d q slug k p_sign_out /\ resp = route_at slug k rt_sign_out p_sign_out) \/
+                 (routed d q slug k p_callback /\ resp = route_at slug k rt_callback p_callback).
+Proof.
+  intros Hl. destruct serve_shape as [[_ [_ [_ [_ [[X|[? X]] _]]]]]|[slug [k [rest [Hr Hc]]]]];
+    try (rewrite Hl in X; discriminate X).
+  destruct Hc as [[-> [E [[X|[? X]] _]]]|[[-> [E [[X|[? [? X]]] _]]]|[[-> [E _]]|[[-> [E _]]|[h [-> [E [X _]]]]]]]];
+    try (rewrite Hl in X; discriminate X).
+  - exists slug, k. left. split; assumption.
+  - exists slug, k. right. split; assumption.
+Qed.
+
+(* back-channel data (a JSON document) comes from a back-channel handler that ran *)
+Lemma json_only_back b : r_body resp = BJson b ->
+  exists slug k h, routed d q slug k (rt_path (rt_back h)) /\
+                   resp = route_at slug k (rt_back h) (rt_path (rt_back h)) /\ r_ran resp = Some (HBack h).
+Proof.
+  intros Hb. destruct serve_shape as [[_ [_ [_ [_ [_ X]]]]]|[slug [k [rest [Hr Hc]]]]].
+  { rewrite Hb in X. contradiction. }
+  assert (Hg : forall r c, r_body (gate_err r c) <> BJson b) by (intros r c; cbn; unfold err_body; destruct (accept_json r); discriminate).
+  destruct Hc as [[-> [E _]]|[[-> [E _]]|[[-> [E _]]|[[-> [E _]]|[h [-> [E _]]]]]]].
+  - exfalso. rewrite E, start_flat in Hb. destruct (negb _); [exact (Hg _ _ Hb)|].
+    unfold h_start, of_flow_start in Hb. destruct (F.sr_state _); cbn in Hb; [discriminate|]. unfold err_body in Hb. destruct (accept_json _); discriminate.
+  - exfalso. rewrite E, sign_in_flat in Hb.
+    repeat match type of Hb with context [if ?c then gate_err _ _ else _] => destruct c; [exact (Hg _ _ Hb)|] end.
+    unfold h_sign_in, of_flow_sign_in in Hb. destruct (F.r_code _); [destruct (o_query_ok _ _)|destruct (F.r_body _)]; cbn in Hb;
+      try discriminate; unfold err_body in Hb; destruct (accept_json _); discriminate.
+  - exfalso. rewrite E in Hb. destruct (sign_out_cases lower d o now_ns slug k q an) as [[c [X _]]|[_ X]]; rewrite X in Hb; [exact (Hg _ _ Hb)|].
+    unfold h_sign_out in Hb. destruct (str_eqb _ _); destruct (acookie_of _); cbn in Hb; try discriminate.
+    destruct (S.revoke_ok _ _); discriminate.
+  - exfalso. rewrite E in Hb. destruct (callback_cases lower d o now_ns slug k q an) as [[c [X _]]|[X|[_ [_ X]]]]; rewrite X in Hb.
+    + exact (Hg _ _ Hb).
+    + cbn in Hb. unfold err_body in Hb. destruct (accept_json _); discriminate.
+    + unfold of_flow_callback in Hb. destruct (F.cr_saved _); [destruct (F.cr_location _)|]; cbn in Hb; try discriminate;
+        unfold err_body in Hb; destruct (accept_json _); discriminate.
+  - exists slug, k, h. split; [exact Hr|]. split; [exact E|].
+    destruct (back_gate_sound_int lower d o now_ns slug k q an h) as [_ H2].
+    rewrite E. destruct (r_ran (route_at slug k (rt_back h) (rt_path (rt_back h)))) as [h'|] eqn:Er.
+    + destruct (back_gate_sound_int lower d o now_ns slug k q an h) as [H1 _]. destruct (H1 h' Er) as [-> _]. reflexivity.
+    + exfalso. destruct (back_effects_need_handler lower d o now_ns slug k q an h Er) as [_ X]. apply (X b). rewrite <- E. exact Hb.
+Qed.
+
+End Whole.
+
+(* ------------------------------------------------------------------------------------------ *)
+(* the composite end-to-end theorems, over ALL requests, cookies, provider answers and times    *)
+
+Lemma sign_in_page_200 (lower : str -> str) cfg p now rq c rr vr :
+  F.r_body (F.sign_in lower cfg p now rq c rr vr) = F.BodySignInPage ->
+  F.r_status (F.sign_in lower cfg p now rq c rr vr) = 200.
+Proof.
+  unfold F.sign_in. destruct (F.ao_res _) as [[]|s]; cbn; try discriminate; try reflexivity.
+  unfold F.proxy_oauth_redirect. destruct (F.is_nil _); discriminate.
+Qed.
+
+Section Final.
+Variable lower : str -> str.
+
+(* from the integrated response back to AuthGates' route view, through the adapter *)
+Lemma code_gives_gates_outcome d o now_ns slug k q an src s :
+  let r := inner q p_sign_in in
+  r_loc (serve_route lower d slug k q o an now_ns rt_sign_in r (B.init_state (d_pre d) r)) = LCode src s ->
+  G.serve (gcfg d) now_ns G.EpSignIn (gview d o k an r (gsess_sign_in lower d o now_ns slug k q an)) =
+  G.ORedirect src G.WithCode.
+Proof.
+  cbv zeta. intros Hl. pose proof (gates_view_sign_in lower d o now_ns slug k q an (inner q p_sign_in)) as Ha.
+  destruct (G.serve _ _ _ _) as [st|st|src' [|]|a]; cbn [loc_agrees] in Ha.
+  - destruct Ha as [X _]. rewrite Hl in X. discriminate X.
+  - rewrite Hl in Ha. discriminate Ha.
+  - rewrite Hl in Ha. discriminate Ha.
+  - destruct Ha as [s' X]. rewrite Hl in X. inversion X. reflexivity.
+  - destruct Ha as [n X]. rewrite Hl in X. discriminate X.
+Qed.
+
+Definition redeem_request_ok (d : deployment) (q' : request) : Prop :=
+  let r' := inner q' B.p_redeem in
+  B.rq_method r' = B.m_post /\ init_err d r' = false /\
+  B.presented_id r' = d_client_id d /\ B.presented_secret r' = d_client_secret d.
+
+(* INT_code_end_to_end *)
+Theorem code_end_to_end d q o an now_ns src s :
+  r_loc (serve lower d q o an now_ns) = LCode src s ->
+  let resp := serve lower d q o an now_ns in
+  let r := inner q p_sign_in in
+  let now_s := (now_ns / ns)%Z in
+  exists slug k,
+    (* the route: this deployment's host, clean path, a registered provider slug, /sign_in, GET,
+       and the gates of newMux in their order *)
+    routed d q slug k p_sign_in /\
+    sign_in_gates_pass d o now_ns q /\ src = redirect_value r /\ B.form_get k_state (the_form r) <> [] /\
+    (* C07: redirect_uri's host, under EVERY RFC 3986 reading, is in a configured root domain *)
+    (forall sch ui h port rest, Url.rfc_split src sch ui h port rest ->
+       G.in_domain (Url.rfc_hostname h) (d_proxy_domains d)) /\
+    (* C07: the Location actually written: its authority is all ASCII and, whatever path / query
+       (with the code) follows, every RFC reading of the text names an in-domain host *)
+    (forallb Url.byte_ok src = true -> (d_scheme d = [] \/ Url.scheme_ok (d_scheme d)) ->
+       exists u, Url.go_parse src = Some u /\
+         forall tail s' ui' h' p' r', Url.rest_ok tail ->
+           Url.rfc_split (Url.authority_string (d_scheme d) u ++ tail) s' ui' h' p' r' ->
+           G.in_domain (Url.rfc_hostname h') (d_proxy_domains d)) /\
+    (* C07: signature valid and fresh; under the ideal-MAC hypothesis it was issued by the proxy *)
+    (exists t, G.parse_int (ts_value r) = Some t /\
+               sigval_of o (sig_value r) = G.SigTag (G.Mac (d_client_secret d) (src ++ G.dec t)) /\
+               (now_ns - t * ns <= G.ttl_ns)%Z) /\
+    (forall issued, G.issued_only (d_client_secret d) issued (sigval_of o (sig_value r)) ->
+       G.signed_fresh now_ns issued src (ts_value r)) /\
+    (* C09: the cookie opens under the COOKIE key, is within its lifetime, the IdP confirmed it in
+       THIS request, its e-mail passes the rule; the code seals that session (same owner, refresh
+       token and lifetime) and exactly it is re-saved *)
+    (exists c s0, lookup slug (q_sess q) = Some c /\ o_open o c = Some (d_cookie_key d, to_back s0) /\
+       (now_s <= F.s_lifetime s0)%Z /\ F.rule_passes lower (fcfg d) (F.s_email s0) = true /\
+       F.s_email s = F.s_email s0 /\ F.s_lifetime s = F.s_lifetime s0 /\ F.s_rtok s = F.s_rtok s0 /\
+       r_sess_ops resp = [F.OpSet s] /\
+       exists calls, r_calls resp = map CIdp calls /\
+         (FP.refreshed_ok now_s s0 (an_refresh an) s calls \/ FP.validated_ok k now_s s0 (an_validate an) s calls)) /\
+    r_status resp = 302 /\
+    (* C08: the code is a seal under the AUTH-CODE key of exactly that session: whoever presents a
+       string that opens under that key to s, with the client credentials, within its deadlines,
+       at /redeem of any registered provider, at any later time, gets s's e-mail and tokens back *)
+    (forall q' o' an' now_ns' slug' k' c,
+       routed d q' slug' k' B.p_redeem -> redeem_request_ok d q' ->
+       B.presented_code (inner q' B.p_redeem) = c -> o_open o' c = Some (d_code_key d, to_back s) ->
+       ((now_ns' / ns) <= F.s_refresh s)%Z -> ((now_ns' / ns) <= F.s_lifetime s)%Z ->
+       let resp' := serve lower d q' o' an' now_ns' in
+       r_status resp' = 200 /\ r_body resp' = BJson (session_json (to_back s) (now_ns' / ns)) /\ r_calls resp' = []).
+Proof.
+  intros Hl. cbv zeta.
+  destruct (code_only_sign_in lower d q o an now_ns src s Hl) as [slug [k [Hr He]]].
+  exists slug, k. split; [exact Hr|]. rewrite He in Hl |- *.
+  destruct (code_sound_int lower d o now_ns slug k q an src s Hl) as [Hg [Hs [Hst [Hdom [Hsig [Hck [H302 _]]]]]]].
+  pose proof (code_gives_gates_outcome d o now_ns slug k q an src s Hl) as Hgo.
+  split; [exact Hg|]. split; [exact Hs|]. split; [exact Hst|]. split; [exact Hdom|].
+  split. { intros Hb Hsch. exact (GP.code_location_in_domain (gcfg d) now_ns G.EpSignIn _ src Hgo Hb Hsch). }
+  split; [exact Hsig|].
+  split. { intros issued Hi. destruct (GP.code_needs_signature (gcfg d) now_ns G.EpSignIn (gview d o k an (inner q p_sign_in) (gsess_sign_in lower d o now_ns slug k q an)) issued Hi) as [H1 _].
+           exact (proj2 (H1 src Hgo)). }
+  split. { destruct Hck as [c [s0 [A1 [A2 [A3 [A4 [A5 [A6 [A7 [A8 [A9 A10]]]]]]]]]]].
+           exists c, s0. repeat (split; [assumption|]). eexists. split; [exact A10 | exact A9]. }
+  split; [exact H302|].
+  intros q' o' an' now_ns' slug' k' c Hr' [Hm [Hi [Hid Hsec]]] Hc Ho Hrf Hlt.
+  rewrite (serve_routed lower d q' o' an' now_ns' slug' k' B.p_redeem Hr').
+  rewrite (serve_auth_at lower d q' o' an' now_ns' slug' k' B.p_redeem (rt_back B.HRedeem)) by (vm_compute; reflexivity).
+  subst c.
+  destruct (code_redeems_int lower d o' now_ns' slug' k' q' an' (to_back s) Hm Hi Hid Hsec Ho Hrf Hlt) as [R1 [R2 [R3 _]]].
+  auto.
+Qed.
+
+(* INT_login_end_to_end *)
+Theorem login_end_to_end d q o an now_ns s :
+  let resp := serve lower d q o an now_ns in
+  In (F.OpSet s) (r_sess_ops resp) ->
+  exists slug k,
+    (* set by /callback: CSRF nonce matched, provider vouched, redirect re-validated *)
+    (routed d q slug k p_callback /\
+     let r := inner q p_callback in
+     let code := B.form_get B.k_code (the_form r) in
+     B.rq_method r = B.m_get /\
+     exists nonce redirect ts,
+       S.b64_decode (B.form_get k_state (the_form r)) = Some (nonce ++ F.colon :: redirect) /\
+       ~ In F.colon nonce /\ lookup slug (q_csrf q) = Some nonce /\
+       G.valid_redirect_uri redirect (root_domains d) = true /\
+       (forall sch ui h port rest, Url.rfc_split redirect sch ui h port rest ->
+          G.in_domain (Url.rfc_hostname h) (d_proxy_domains d)) /\
+       B.form_get k_error (the_form r) = [] /\
+       T.redeem true (tprov k) (an_payload an) code (an_tok an) (an_ui an) = T.Session ts /\
+       idp_vouched k an code ts /\
+       F.rule_passes lower (fcfg d) (T.s_email ts) = true /\
+       s = F.redeemed_session (fcfg d) (now_ns / ns) (T.s_email ts) (T.s_access ts) (T.s_refresh ts) (T.s_expires_in ts) /\
+       r_loc resp = LVerbatim redirect /\ r_status resp = 302 /\
+       r_sess_ops resp = [F.OpSet s] /\ r_csrf_ops resp = [F.mkSC [] true] /\
+       r_calls resp = [CIdp (F.CallRedeem code)]) \/
+    (* ... or a re-save by /sign_in of the session the browser presented: same owner, same
+       refresh token, same lifetime (C09_resave_keeps_lifetime) *)
+    (routed d q slug k p_sign_in /\
+     exists c s0, lookup slug (q_sess q) = Some c /\ o_open o c = Some (d_cookie_key d, to_back s0) /\
+       ((now_ns / ns) <= F.s_lifetime s0)%Z /\
+       F.s_email s = F.s_email s0 /\ F.s_rtok s = F.s_rtok s0 /\ F.s_lifetime s = F.s_lifetime s0 /\
+       ((now_ns / ns) <= F.s_refresh s0 -> s = s0)%Z).
+Proof.
+  cbv zeta. intros Hin.
+  destruct (set_only_callback_or_sign_in lower d q o an now_ns s Hin) as [slug [k [[Hr He]|[Hr He]]]]; exists slug, k.
+  - left. split; [exact Hr|]. rewrite He in Hin |- *.
+    exact (login_sound_int lower d o now_ns slug k q an s Hin).
+  - right. split; [exact Hr|]. rewrite He in Hin.
+    destruct (sign_in_ran_cases lower d o now_ns slug k q an) as [Hran|Hran].
+    + destruct (sign_in_entered lower d o now_ns slug k q an Hran) as [_ Hx]. rewrite Hx in Hin.
+      assert (Hops : In (F.OpSet s) (F.r_ops (F.sign_in lower (fcfg d) k (now_ns / ns)
+                 (F.mkSI true true true true (B.form_get k_state (the_form (inner q p_sign_in))))
+                 (cookie_of d o (lookup slug (q_sess q))) (an_refresh an) (an_validate an)))).
+      { unfold of_flow_sign_in in Hin. destruct (F.r_code _); [destruct (o_query_ok _ _)|destruct (F.r_body _)]; exact Hin. }
+      destruct (FP.sign_in_route_sets lower (fcfg d) k (now_ns / ns) (F.mkSI true true true true _) _ _ _ s Hops)
+        as [s0 [Hck [Hl [E1 [E2 [E3 E4]]]]]].
+      destruct (cookie_of_sealed d o _ s0 Hck) as [c [Hlk Hop]].
+      exists c, s0. repeat (split; [assumption|]). exact E4.
+    + destruct (sign_in_refused lower d o now_ns slug k q an Hran) as [code [Hx _]]. rewrite Hx in Hin. cbn in Hin. contradiction.
+Qed.
+
+(* INT_backchannel *)
+Theorem backchannel_end_to_end d q o an now_ns :
+  let resp := serve lower d q o an now_ns in
+  (* (a) the token endpoints act only with the client credentials (C08) *)
+  (forall h, r_ran resp = Some (HBack h) ->
+     exists slug k, routed d q slug k (rt_path (rt_back h)) /\
+       let r := inner q (rt_path (rt_back h)) in
+       mem_str (B.rq_method r) (rt_methods (rt_back h)) = true /\
+       B.presented_id r = d_client_id d /\ B.presented_secret r = d_client_secret d /\
+       (d_client_id d <> [] -> d_client_secret d <> [] ->
+        In (d_client_id d) (B.id_values r) /\ In (d_client_secret d) (B.secret_values r))) /\
+  (forall b, r_body resp = BJson b -> exists h, r_ran resp = Some (HBack h)) /\
+  (forall slug k h, routed d q slug k (rt_path (rt_back h)) -> r_ran resp = None ->
+     r_calls resp = [] /\ r_sess_ops resp = [] /\ r_body resp = err_body (inner q (rt_path (rt_back h))) (r_status resp) /\
+     (r_status resp = 405 \/ (r_status resp = 500 /\ d_pre d = false) \/
+      (r_status resp = 401 /\ (B.presented_id (inner q (rt_path (rt_back h))) <> d_client_id d \/
+                               B.presented_secret (inner q (rt_path (rt_back h))) <> d_client_secret d)))) /\
+  (* /redeem answers 200 only for a string that opens under the auth-code key to a live session *)
+  (forall slug k, routed d q slug k B.p_redeem -> r_status resp = 200 ->
+     exists s, o_open o (B.presented_code (inner q B.p_redeem)) = Some (d_code_key d, s) /\
+       ((now_ns / ns) <= B.s_refresh_dl s)%Z /\ ((now_ns / ns) <= B.s_lifetime_dl s)%Z /\
+       r_body resp = BJson (session_json s (now_ns / ns)) /\ r_calls resp = []) /\
+  (* (b) every response from inside an authenticator carries the whole security table (C18) *)
+  (forall slug k rest, routed d q slug k rest ->
+     forall key v, H.tbl_lookup key HP.AT = Some v -> H.hget key (headers_of resp) = [H.VStr v]) /\
+  (* (c) error bodies are the error.html page or the JSON error document, nothing else; both are
+     inert for EVERY message text (C20) *)
+  (r_secured resp = true -> 400 <= r_status resp ->
+     r_body resp = BErrPage (r_status resp) \/ r_body resp = BErrJson (r_status resp) \/ r_body resp = BPlain \/
+     r_body resp = BEmpty \/ exists e u sg t, r_body resp = BSignOutPage e u sg t true).
+Proof.
+  cbv zeta. split; [|split; [|split; [|split; [|split]]]].
+  - intros h Hran. destruct (serve_shape lower d q o an now_ns) as [[X _]|[slug [k [rest [Hr Hc]]]]]; [rewrite X in Hran; discriminate|].
+    assert (Hg : forall r c, r_ran (gate_err r c) <> Some (HBack h)) by (intros; discriminate).
+    destruct Hc as [[-> [E _]]|[[-> [E _]]|[[-> [E _]]|[[-> [E _]]|[h' [-> [E _]]]]]]].
+    + exfalso. rewrite E, start_flat in Hran. destruct (negb _); [discriminate|].
+      unfold h_start, of_flow_start in Hran. destruct (F.sr_state _); discriminate.
+    + exfalso. rewrite E in Hran. destruct (sign_in_ran_cases lower d o now_ns slug k q an) as [X|X]; rewrite X in Hran; discriminate.
+    + exfalso. rewrite E in Hran. destruct (sign_out_cases lower d o now_ns slug k q an) as [[c [X _]]|[_ X]]; rewrite X in Hran; [discriminate|].
+      unfold h_sign_out in Hran. destruct (str_eqb _ _); destruct (acookie_of _); try discriminate. destruct (S.revoke_ok _ _); discriminate.
+    + exfalso. rewrite E in Hran. destruct (callback_cases lower d o now_ns slug k q an) as [[c [X _]]|[X|[_ [_ X]]]]; rewrite X in Hran; try discriminate.
+      unfold of_flow_callback in Hran. destruct (F.cr_saved _); [destruct (F.cr_location _)|]; discriminate.
+    + rewrite E in Hran. destruct (back_gate_sound_int lower d o now_ns slug k q an h') as [H1 _].
+      destruct (H1 _ Hran) as [Hh [Hm [Hi Hs]]]. inversion Hh; subst h'.
+      exists slug, k. split; [exact Hr|]. cbv zeta. split; [exact Hm|]. split; [exact Hi|]. split; [exact Hs|].
+      intros N1 N2. exact (back_knowledge_int lower d o now_ns slug k q an h _ N1 N2 Hran).
+  - intros b Hb. destruct (json_only_back lower d q o an now_ns b Hb) as [slug [k [h [_ [_ Hran]]]]]. exists h. exact Hran.
+  - intros slug k h Hr Hran. rewrite (serve_routed lower d q o an now_ns slug k _ Hr) in Hran |- *.
+    rewrite (serve_auth_at lower d q o an now_ns slug k _ (rt_back h)) in Hran |- * by (destruct h; vm_compute; reflexivity).
+    destruct (back_gate_sound_int lower d o now_ns slug k q an h) as [_ H2].
+    destruct (H2 Hran) as [A1 [A2 [_ [_ [A5 A6]]]]]. split; [exact A1|]. split; [exact A2|]. split; [exact A5|].
+    destruct A6 as [[X _]|[[X [Y _]]|[X Y]]]; auto.
+  - intros slug k Hr H200. rewrite (serve_routed lower d q o an now_ns slug k _ Hr) in H200 |- *.
+    rewrite (serve_auth_at lower d q o an now_ns slug k _ (rt_back B.HRedeem)) in H200 |- * by (vm_compute; reflexivity).
+    destruct (redeem_genuine_int lower d o now_ns slug k q an H200) as [s [A1 [A2 [A3 [A4 [A5 _]]]]]].
+    exists s. auto.
+  - intros slug k rest Hr key v Hk. apply security_headers_int; [|exact Hk].
+    apply (secured_iff_routed lower). exists slug, k, rest. exact Hr.
+  - intros Hsec H400.
+    assert (Hge : forall r c, r_body (gate_err r c) = BErrPage (r_status (gate_err r c)) \/ r_body (gate_err r c) = BErrJson (r_status (gate_err r c))).
+    { intros r c. cbn. unfold err_body. destruct (accept_json r); auto. }
+    assert (Hew : forall r c a b cs rn, r_body (err_with r c a b cs rn) = BErrPage (r_status (err_with r c a b cs rn)) \/
+                                         r_body (err_with r c a b cs rn) = BErrJson (r_status (err_with r c a b cs rn))).
+    { intros r c a b cs rn. cbn. unfold err_body. destruct (accept_json r); auto. }
+    apply (secured_iff_routed lower) in Hsec. destruct Hsec as [slug [k [rest Hr]]].
+    rewrite (serve_routed lower d q o an now_ns slug k rest Hr) in *.
+    pose proof (serve_auth_cases lower d slug k q rest o an now_ns) as Hc. cbv zeta in Hc.
+    destruct Hc as [[_ [[_ X]|[_ [X _]]]]|Hc]; [rewrite X; auto | rewrite X; auto |].
+    destruct Hc as [[-> E]|[[-> E]|[[-> E]|[[-> E]|[h [-> E]]]]]]; rewrite E in H400 |- *.
+    + rewrite start_flat in *. destruct (negb _); [destruct (Hge (inner q p_start) 405); auto|].
+      unfold h_start, of_flow_start in *. destruct (F.sr_state _); [cbn in H400; lia|]. destruct (Hew (inner q p_start) (F.sr_status (F.oauth_start (an_nonce an) (start_request_of d o now_ns (inner q p_start)))) [] (F.start_set_cookies (F.oauth_start (an_nonce an) (start_request_of d o now_ns (inner q p_start)))) [] (Some HStart)); auto.
+    + rewrite sign_in_flat in *.
+      repeat match goal with |- context [if ?c then gate_err ?r ?x else _] => destruct c; [destruct (Hge r x); auto|] end.
+      unfold h_sign_in, of_flow_sign_in in *.
+      destruct (F.r_code _); [destruct (o_query_ok _ _); [cbn in H400; lia|]|destruct (F.r_body _) eqn:Eb].
+      * match goal with |- context [err_with ?r ?c ?a ?b ?cs ?rn] => destruct (Hew r c a b cs rn); auto end.
+      * exfalso. cbn [r_status mk] in H400. rewrite (sign_in_page_200 lower _ _ _ _ _ _ _ Eb) in H400. lia.
+      * match goal with |- context [err_with ?r ?c ?a ?b ?cs ?rn] => destruct (Hew r c a b cs rn); auto end.
+      * match goal with |- context [err_with ?r ?c ?a ?b ?cs ?rn] => destruct (Hew r c a b cs rn); auto end.
+    + destruct (sign_out_cases lower d o now_ns slug k q an) as [[c [X _]]|[_ X]]; rewrite X in *; [destruct (Hge (inner q p_sign_out) c); auto|].
+      unfold h_sign_out in *. destruct (str_eqb _ _); destruct (acookie_of _); cbn in H400 |- *; try lia.
+      destruct (S.revoke_ok _ _); cbn in H400 |- *; [lia|]. right; right; right; right. eexists _, _, _, _. reflexivity.
+    + destruct (callback_cases lower d o now_ns slug k q an) as [[c [X _]]|[X|[_ [_ X]]]]; rewrite X in *.
+      * destruct (Hge (inner q p_callback) c); auto.
+      * destruct (Hew (inner q p_callback) 500 [] [] [] (Some HCallback)); auto.
+      * unfold of_flow_callback in *. destruct (F.cr_saved _); [destruct (F.cr_location _); [cbn in H400; lia|]|];
+          match goal with |- context [err_with ?r ?c ?a ?b ?cs ?rn] => destruct (Hew r c a b cs rn); auto end.
+    + rewrite back_flat in *.
+      repeat match goal with |- context [if ?c then gate_err ?r ?x else _] => destruct c; [destruct (Hge r x); auto|] end.
+      unfold h_back, of_back_handler, back_body in *. cbn [r_body r_status mk] in *.
+      set (rs := B.run_handler (bcfg d) (benv d k o an (now_ns / ns)) h (inner q (rt_path (rt_back h))) (Some (the_form (inner q (rt_path (rt_back h)))))) in *.
+      destruct (has_field (B.rs_body rs)) eqn:Ehf.
+      2:{ destruct h; auto; destruct (B.rs_calls rs); auto; unfold err_body; destruct (accept_json _); auto. }
+      exfalso.
+      (* a JSON document is only written with 200 / 201 *)
+      assert (Hf : has_field (B.rs_body rs) = true -> B.rs_status rs < 400).
+      { subst rs. destruct h; cbn [B.run_handler].
+        - unfold B.get_profile. destruct (B.is_nil _); [discriminate|]. destruct (B.e_groups _); cbn; [lia | discriminate].
+        - unfold B.validate_token. destruct (B.is_nil _); [discriminate|]. destruct (B.e_valid _); discriminate.
+        - unfold B.redeem. destruct (B.parse_form _ _) as [f e0]. destruct e0; [discriminate|].
+          destruct (B.unseal _ _ _); [|discriminate]. destruct (_ || _)%bool; [discriminate|]. cbn. lia.
+        - unfold B.refresh. destruct (B.parse_form _ _) as [f e0]. destruct e0; [discriminate|].
+          destruct (B.is_nil _); [discriminate|]. destruct (B.e_refresh _); cbn; [lia | discriminate]. }
+      specialize (Hf Ehf). lia.
+Qed.
+
+End Final.
+
+Section Final2.
+Variable lower : str -> str.
+
+(* INT_signout: C19's clauses through the real gate order, over all requests *)
+Theorem signout_end_to_end d q o an now_ns :
+  let resp := serve lower d q o an now_ns in
+  (* a token is revoked at the IdP only by /sign_out *)
+  (forall tok, In (CRevoke tok) (r_calls resp) -> exists slug k, routed d q slug k p_sign_out) /\
+  (forall slug k, routed d q slug k p_sign_out ->
+     let r := inner q p_sign_out in
+     let ack := acookie_of (cookie_of d o (lookup slug (q_sess q))) in
+     let uri := redirect_value r in
+     (has_clear (r_sess_ops resp) ->
+        B.rq_method r = B.m_post /\ sign_out_gates_pass d o now_ns q /\ r_loc resp = LVerbatim uri /\ r_status resp = 302 /\
+        ((ack = S.ACJunk /\ r_calls resp = []) \/
+         exists s, ack = S.ACSealed s /\ r_calls resp = [CRevoke (S.revoke_token (sprov k) s)] /\
+                   S.revoke_ok (sprov k) (an_revoke an) = true)) /\
+     (forall tok, In (CRevoke tok) (r_calls resp) ->
+        exists s, ack = S.ACSealed s /\ tok = S.revoke_token (sprov k) s /\ B.rq_method r = B.m_post /\
+                  sign_out_gates_pass d o now_ns q) /\
+     (B.rq_method r = B.m_get -> r_sess_ops resp = [] /\ r_calls resp = []) /\
+     (forall s, ack = S.ACSealed s -> B.rq_method r = B.m_post -> sign_out_gates_pass d o now_ns q ->
+        r_calls resp = [CRevoke (S.revoke_token (sprov k) s)] /\
+        (S.revoke_ok (sprov k) (an_revoke an) = false -> r_status resp = 500 /\ r_sess_ops resp = [] /\ r_loc resp = LNone) /\
+        (S.revoke_ok (sprov k) (an_revoke an) = true -> r_loc resp = LVerbatim uri /\ r_sess_ops resp = [F.OpClear])) /\
+     (~ sign_out_gates_pass d o now_ns q ->
+        r_sess_ops resp = [] /\ r_calls resp = [] /\ r_loc resp = LNone /\ r_ran resp = None) /\
+     (forall src, r_loc resp = LVerbatim src ->
+        src = uri /\ sign_out_gates_pass d o now_ns q /\
+        (forall sch ui h port rest, Url.rfc_split src sch ui h port rest ->
+           G.in_domain (Url.rfc_hostname h) (d_proxy_domains d)) /\
+        exists t, G.parse_int (ts_value r) = Some t /\
+                  sigval_of o (sig_value r) = G.SigTag (G.Mac (d_client_secret d) (src ++ G.dec t)) /\
+                  (now_ns - t * ns <= G.ttl_ns)%Z)).
+Proof.
+  cbv zeta. split.
+  - intros tok Hin. destruct (revoke_only_sign_out lower d q o an now_ns tok Hin) as [slug [k [Hr _]]]. exists slug, k. exact Hr.
+  - intros slug k Hr. rewrite (serve_routed lower d q o an now_ns slug k _ Hr).
+    rewrite (serve_auth_at lower d q o an now_ns slug k _ rt_sign_out) by (vm_compute; reflexivity).
+    destruct (signout_sound_int lower d o now_ns slug k q an) as [H1 [H2 [H3 [H4 [H5 _]]]]].
+    split; [exact H1|]. split; [exact H2|]. split; [exact H3|]. split; [exact H4|]. split.
+    + intros Hn. destruct (signout_needs_valid_int lower d o now_ns slug k q an Hn) as [c [He [A [B C]]]].
+      repeat split; try assumption. rewrite He. reflexivity.
+    + intros src Hl. destruct (H5 src Hl) as [Hs Hg]. split; [exact Hs|]. split; [exact Hg|].
+      exact (signout_redirect_int lower d o now_ns slug k q an src Hl).
+Qed.
+
+(* INT_start: a login is started at the provider only by GET /start for validated, signed URIs *)
+Theorem start_end_to_end d q o an now_ns st :
+  let resp := serve lower d q o an now_ns in
+  r_loc resp = LIdP st ->
+  exists slug k, routed d q slug k p_start /\
+    let r := inner q p_start in
+    let raw := B.form_get k_redirect_uri (B.url_query r) in
+    B.rq_method r = B.m_get /\
+    exists a b nraw nsig nts,
+      o_parse_string o raw = Some a /\ o_nested o raw = (nraw, nsig, nts) /\ o_parse_string o nraw = Some b /\
+      G.valid_redirect_uri a (root_domains d) = true /\ G.valid_redirect_uri b (root_domains d) = true /\
+      (forall sch ui h port rest, Url.rfc_split a sch ui h port rest -> G.in_domain (Url.rfc_hostname h) (d_proxy_domains d)) /\
+      (forall sch ui h port rest, Url.rfc_split b sch ui h port rest -> G.in_domain (Url.rfc_hostname h) (d_proxy_domains d)) /\
+      (exists t, G.parse_int nts = Some t /\
+                 sigval_of o nsig = G.SigTag (G.Mac (d_client_secret d) (b ++ G.dec t)) /\
+                 (now_ns - t * ns <= G.ttl_ns)%Z) /\
+      (* C09: the state handed to the IdP is nonce ":" a, and that nonce is the CSRF cookie set *)
+      st = an_nonce an ++ F.colon :: a /\ r_csrf_ops resp = [F.mkSC (an_nonce an) false] /\
+      r_status resp = 302 /\ r_sess_ops resp = [] /\ r_calls resp = [].
+Proof.
+  cbv zeta. intros Hl. destruct (idp_only_start lower d q o an now_ns st Hl) as [slug [k [Hr He]]].
+  exists slug, k. split; [exact Hr|]. rewrite He in Hl |- *.
+  destruct (start_sound_int lower d o now_ns slug k q an st Hl) as [Hm [a [b [nraw [nsig [nts [A1 [A2 [A3 [A4 [A5 [A6 [A7 [A8 [A9 [A10 A11]]]]]]]]]]]]]]]].
+  split; [exact Hm|]. exists a, b, nraw, nsig, nts.
+  split; [exact A1|]. split; [exact A2|]. split; [exact A3|]. split; [exact A4|]. split; [exact A5|].
+  split. { intros sch ui h port rest Hsp. exact (GP.host_in_domain _ _ _ _ _ _ _ A4 Hsp). }
+  split. { intros sch ui h port rest Hsp. exact (GP.host_in_domain _ _ _ _ _ _ _ A5 Hsp). }
+  split. { destruct (GP.valid_signature_sound _ _ _ _ _ A6) as [_ [_ [_ [_ [t [Ht [Hmm Ha]]]]]]]. exists t. auto. }
+  auto 10.
+Qed.
+
+(* every 3xx to a caller-supplied URI, at any endpoint, goes to a host in a configured root domain *)
+Theorem redirects_in_domain d q o an now_ns src :
+  let resp := serve lower d q o an now_ns in
+  (r_loc resp = LVerbatim src \/ exists s, r_loc resp = LCode src s) ->
+  G.valid_redirect_uri src (root_domains d) = true /\
+  forall sch ui h port rest, Url.rfc_split src sch ui h port rest -> G.in_domain (Url.rfc_hostname h) (d_proxy_domains d).
+Proof.
+  cbv zeta. intros Hl.
+  assert (Hv : G.valid_redirect_uri src (root_domains d) = true).
+  { destruct Hl as [Hl|[s Hl]].
+    - destruct (verbatim_only_sign_out_or_callback lower d q o an now_ns src Hl) as [slug [k [[Hr He]|[Hr He]]]]; rewrite He in Hl.
+      + destruct (signout_sound_int lower d o now_ns slug k q an) as [_ [_ [_ [_ [H5 _]]]]].
+        destruct (H5 src Hl) as [-> [_ [_ [Hu _]]]]. exact Hu.
+      + destruct (callback_shape lower d q o an now_ns slug k) as [_ _].
+        destruct (callback_cases lower d o now_ns slug k q an) as [[c [X _]]|[X|[_ [_ X]]]]; rewrite X in Hl; try discriminate Hl.
+        unfold of_flow_callback in Hl. destruct (F.cr_saved _) as [s'|] eqn:Es; [|discriminate Hl].
+        pose proof (FP.callback_csrf lower _ _ _ _ s' Es) as
+          [nonce [redirect [email [access [rtok [dur [_ [_ [_ [_ [_ [_ [Hro [_ [_ [_ [_ [Hlo _]]]]]]]]]]]]]]]]]].
+        rewrite Hlo in Hl. inversion Hl; subst. exact Hro.
+    - destruct (code_end_to_end lower d q o an now_ns src s Hl) as [slug [k [_ [[_ [_ [_ [Hu _]]]] [Hs _]]]]].
+      rewrite Hs. exact Hu. }
+  split; [exact Hv|]. intros sch ui h port rest Hsp. exact (GP.host_in_domain _ _ _ _ _ _ _ Hv Hsp).
+Qed.
+
+(* INT_routing *)
+Theorem routing_end_to_end d q o an now_ns :
+  let resp := serve lower d q o an now_ns in
+  (r_secured resp = true <-> exists slug k rest, routed d q slug k rest) /\
+  (r_secured resp = false -> no_effect resp) /\
+  (q_path q <> p_ping -> q_host q <> d_host d -> r_status resp = 421 /\ no_effect resp) /\
+  (forall slug k rest, routed d q slug k rest ->
+     ~ In rest (map rt_path all_routes) -> no_effect resp /\ (r_status resp = 301 \/ r_status resp = 404)).
+Proof.
+  cbv zeta. split; [apply secured_iff_routed|]. split; [|split].
+  - intros Hs. destruct (serve_inv lower d q o an now_ns) as [[_ [Hn _]]|[slug [k [rest [Hr He]]]]]; [exact Hn|].
+    rewrite He, serve_auth_secured in Hs. discriminate.
+  - intros Hp Hh. destruct (serve_inv lower d q o an now_ns) as [[_ [Hn H421]]|[slug [k [rest [[_ [Hh' _]] _]]]]]; [|contradiction].
+    split; [apply H421; assumption | exact Hn].
+  - intros slug k rest Hr Hnin. rewrite (serve_routed lower d q o an now_ns slug k rest Hr).
+    pose proof (serve_auth_cases lower d slug k q rest o an now_ns) as Hc. cbv zeta in Hc.
+    destruct Hc as [[Hn [[X _]|[X _]]]|Hc]; [auto | auto |].
+    exfalso. apply Hnin.
+    destruct Hc as [[-> _]|[[-> _]|[[-> _]|[[-> _]|[h [-> _]]]]]]; try (vm_compute; tauto).
+    destruct h; vm_compute; tauto.
+Qed.
+
+End Final2.
+
+(* ------------------------------------------------------------------------------------------ *)
+(* the hypotheses are satisfiable: a concrete deployment, a signed fresh in-domain /sign_in
+   request with a live cookie gets a code; the back channel redeems that code; another Host gets 421 *)
+Require Coq.Strings.String.
+Module Ex.
+Import Coq.Strings.String.StringSyntax.
+Notation bs := H.bs.
+Definition d : deployment :=
+  {| d_host := bs "a"; d_slugs := [(bs "g", F.Google)]; d_pre := false; d_proxy_domains := [bs "ex.com"];
+     d_client_id := bs "i"; d_client_secret := bs "s"; d_scheme := bs "https"; d_addresses := [];
+     d_email_domains := [bs "ex.com"]; d_lifetime := 3600%Z; d_code_key := 2; d_cookie_key := 1 |}.
+Definition uri := bs "https://a.ex.com/".
+Definition sess : B.session := B.Build_session (bs "a@ex.com") (bs "t") (bs "r") 2000%Z 5000%Z.
+Definition o : oracles :=
+  {| o_open := fun c => if str_eqb c (bs "C") then Some (1, sess) else if str_eqb c (bs "K") then Some (2, sess) else None;
+     o_tag := fun b => if str_eqb b [65] then G.Mac (bs "s") (uri ++ G.dec 1000) else G.Raw b;
+     o_parse_string := fun _ => None; o_nested := fun _ => ([], [], []); o_query_ok := fun _ => true |}.
+Definition an : answers :=
+  {| an_refresh := F.RReset; an_validate := F.VStatus 200 true true; an_tok := T.TransportErr; an_ui := T.TransportErr;
+     an_payload := fun _ => T.NotJSON; an_revoke := S.IdpSt 200%Z S.BNotJSON; an_groups := B.GrpOk []; an_nonce := bs "n"; an_static := 200 |}.
+Definition q_sign_in : request :=
+  {| q_host := bs "a"; q_path := bs "/g/sign_in"; q_method := bs "GET";
+     q_query := bs "client_id=i&redirect_uri=https%3A%2F%2Fa.ex.com%2F&sig=QQ%3D%3D&ts=1000&state=x";
+     q_ctype := B.Build_ctype false false; q_body := []; q_headers := []; q_sess := [(bs "g", bs "C")]; q_csrf := [] |}.
+Definition q_redeem : request :=
+  {| q_host := bs "a"; q_path := bs "/g/redeem"; q_method := bs "POST"; q_query := [];
+     q_ctype := B.Build_ctype true false; q_body := bs "client_id=i&client_secret=s&code=K"; q_headers := [];
+     q_sess := []; q_csrf := [] |}.
+Definition q_sign_out : request :=
+  {| q_host := bs "a"; q_path := bs "/g/sign_out"; q_method := bs "POST"; q_query := [];
+     q_ctype := B.Build_ctype true false; q_body := bs "redirect_uri=https%3A%2F%2Fa.ex.com%2F&sig=QQ%3D%3D&ts=1000"; q_headers := [];
+     q_sess := [(bs "g", bs "C")]; q_csrf := [] |}.
+Definition q_other_host : request :=
+  {| q_host := bs "evil"; q_path := bs "/g/sign_in"; q_method := bs "GET"; q_query := q_query q_sign_in;
+     q_ctype := B.Build_ctype false false; q_body := []; q_headers := []; q_sess := [(bs "g", bs "C")]; q_csrf := [] |}.
+End Ex.
+
+Example nonvacuous :
+  (let r := serve lower_ascii Ex.d Ex.q_sign_in Ex.o Ex.an (1100 * ns)%Z in
+   r_status r = 302 /\ r_loc r = LCode Ex.uri (to_flow Ex.sess) /\ r_sess_ops r = [F.OpSet (to_flow Ex.sess)] /\
+   r_calls r = [CIdp (F.CallValidate [116])]) /\
+  (let r := serve lower_ascii Ex.d Ex.q_redeem Ex.o Ex.an (1200 * ns)%Z in
+   r_status r = 200 /\ r_body r = BJson (session_json Ex.sess 1200)) /\
+  (let r := serve lower_ascii Ex.d Ex.q_sign_out Ex.o Ex.an (1100 * ns)%Z in
+   r_status r = 302 /\ r_loc r = LVerbatim Ex.uri /\ r_sess_ops r = [F.OpClear] /\ r_calls r = [CRevoke [116]]) /\
+  (let r := serve lower_ascii Ex.d Ex.q_other_host Ex.o Ex.an (1100 * ns)%Z in
+   r_status r = 421 /\ r_secured r = false /\ r_loc r = LNone) /\
+  routed Ex.d Ex.q_sign_in [103] F.Google p_sign_in.
+Proof.
+  repeat split; try (vm_compute; reflexivity). vm_compute. discriminate.
+Qed.
